@@ -1,305 +1,1667 @@
-"""C11 (extra base) — cases that only make sense as a TWO-MODE differential: inputs on which numba and the interpreted
-fallback can legitimately be suspected to differ and which the Int-valued Lean models cannot carry: float columns with
-NaN / ±inf / -0.0, every integer dtype at its bounds, narrow index and filter dtypes at their largest value, unsigned
-arithmetic, empty and single-row columns. There is no Lean model for these cases (`to_model` sends a no-op, `compare`
-accepts it); the verdict is the direct comparison of the two execution modes' results by checks/run.py
-(`MODE_DIFF_IS_VIOLATION` of c11): values (floats by `repr`, so NaN, -0.0 and inf are told apart), dtypes, lengths and error
-kinds. Used only as an entry of c11.BASES."""
+"""C11 (mode-differential base) — a systematic TWO-MODE sweep of the public operations of ExeTera with the inputs on which
+numba-compiled code and the interpreted fallback (USE_NUMBA=false) can plausibly part ways, and which the Int-valued Lean
+models cannot carry: every numeric dtype (bool, the unsigned ones) at its bounds; float32 / float64 with NaN (first / middle /
+last row of a group), +-inf, -0.0 vs 0.0, subnormals, the largest finite value; fixed strings with trailing blanks, NUL bytes and
+high bytes; indexed strings that are empty, multi-byte UTF-8 or share prefixes; empty and single-row columns; index / filter /
+span arrays of every integer dtype at their largest value; Python scalars vs numpy scalars vs 0-d arrays; Field vs ndarray vs
+list arguments where the API accepts them.
+
+There is no Lean model for these cases (`to_model` sends a constant-time no-op, `compare` accepts it). The verdict is the
+equality of the two execution modes' canonical outputs, taken by checks/run.py (`MODE_DIFF_IS_VIOLATION` of c11): values
+(floats by `repr`, so NaN, -0.0, inf and subnormals are told apart; fixed strings as their full-width raw bytes), dtypes, lengths,
+the class of the returned object and the error class. Used only as an entry of c11.BASES.
+
+Families (`op`): x_spans, x_apply (span reductions incl. the _filter and _indexed forms), x_concat, x_filter, x_index, x_sort,
+x_map, x_merge, x_smerge (Session merge helpers, get_index, join), x_groupby, x_aggregate, x_isin, x_unique, x_journal, x_import,
+x_export, x_arith, x_date, x_ops (module-level kernels nothing else calls). A generated case is a BATCH (`op` = x_batch) of
+sub-cases that call the same kernels at the same numba signatures, so that one worker process compiles each signature instead
+of every worker; corpus cases (corpus/C11) are single. `mode_diff_ok` / `match_finding` look into the batch: a batch is a known
+finding only if EVERY differing sub-case matches the same open finding (`match_one`), any other difference is reported.
+`python -m checks.harness.c11x <replay.json>` re-runs a reported case in both modes and prints the differing sub-cases.
+
+NOT generated, because the two modes are allowed to differ or the call is not a valid one:
+  * an out-of-range subscript inside a compiled kernel - undefined behaviour when compiled, IndexError when interpreted: spans
+    that decrease or end beyond the column, an index beyond the column handed to an `ops.*` kernel that does not check it, a
+    caller-supplied destination that is too short, `ordered_get_last_as_filter` of an empty array (`result[-1]`);
+  * arguments of a type the function does not document and numba cannot type (numba raises TypingError / TypeError at the
+    call, the interpreted numpy code duck-types the value or raises another class): a str where bytes are stored
+    (`empty_value='zz'` for a fixed-string array; bytes / uint8 arrays ARE generated), a numpy.bytes_ scalar as `empty_value`
+    (numba cannot unbox it, whatever the kernel; Python bytes ARE generated). Both were observed on the unchanged tree and are
+    named in the builder's report; no public caller passes `empty_value`;
+  * `chunk_row_size=1` for the CSV import (a header-only file then raises ValueError in BOTH modes - not a mode matter).
+"""
 import os
 
 PROPERTY = "C11"
 LEVEL = "other"
-INT_DTYPES = ["int8", "int16", "int32", "int64", "uint8", "uint16", "uint32", "uint64"]
+SINT = ["int8", "int16", "int32", "int64"]
+UINT = ["uint8", "uint16", "uint32", "uint64"]
+INT_DTYPES = SINT + UINT
 FLOAT_DTYPES = ["float32", "float64"]
+NUM_DTYPES = ["bool"] + INT_DTYPES + FLOAT_DTYPES
+FIELD_DTYPES = ["bool", "int8", "uint8", "int16", "uint16", "int32", "uint32", "int64", "float32", "float64"]   # utils.PERMITTED_NUMERIC_TYPES
 SPECIAL = ["nan", "inf", "-inf", "-0.0", "0.0"]
+F_EXTREME = {"float32": ["1e-45", "-1e-45", "3.4028234663852886e+38", "-3.4028234663852886e+38", "1.1754943508222875e-38"],
+             "float64": ["5e-324", "-5e-324", "1.7976931348623157e+308", "-1.7976931348623157e+308", "2.2250738585072014e-308"]}
 SRC_FNS = ["first", "last", "min", "max"]
 IDX_FNS = ["index_of_min", "index_of_max"]
-STRS = ["", "a", "ab", "b", "é", "zz", "a b", "日本", "x" * 9]
+NOSRC_FNS = ["index_of_first", "index_of_last", "count"]
+STRS = ["", "a", "ab", "b", "é", "zz", "a b", "日本", "x" * 9, "abc", "abd", "ab ", " ab", "A", "é́", "\x00", "a\x00"]
+FIXED_BYTES = ["", "a", "ab", "ab ", "ab  ", " ab", "a\x00b", "ab\x00", "\x00", "\xff", "\xe9a", "zz", "a b", "\x7f", "\x80", "abcd", "abc"]
 
 
 # ------------------------------------------------------------------------------------------------------------------
-# generators
+# generators: columns
 # ------------------------------------------------------------------------------------------------------------------
 def bounds(dt):
+    if dt == "bool":
+        return (0, 1)
     bits = int(dt.lstrip("uint"))
     return (0, 2 ** bits - 1) if dt.startswith("u") else (-2 ** (bits - 1), 2 ** (bits - 1) - 1)
 
 
-def rand_spans(rng, n):
+def dclass(dt):
+    """dtype class of a tag: bool / int / uint / float32 / float64 / fixed / indexed / categorical / timestamp"""
+    if dt is None:
+        return "none"
+    if dt in ("bool", "float32", "float64", "indexed", "fixed", "categorical", "timestamp"):
+        return dt
+    if dt.startswith("S"):
+        return "fixed"
+    return "uint" if dt.startswith("u") else "int"
+
+
+def rand_spans(rng, n, empty=False):
     cuts = sorted(rng.sample(range(1, n), rng.randrange(0, min(n - 1, 6) + 1))) if n > 1 else []
-    return [0] + cuts + [n]
+    sp = [0] + cuts + [n]
+    if empty and len(sp) > 1:
+        k = rng.randrange(0, len(sp))
+        sp = sp[:k] + [sp[k]] + sp[k:]          # one empty span (a repeated boundary)
+    return sp
 
 
-def float_col(rng, n, p_special=0.3):
+def float_vals(rng, n, dt="float64", p_special=0.3):
     out = []
     for _ in range(n):
-        if rng.random() < p_special:
+        r = rng.random()
+        if r < p_special:
             out.append(rng.choice(SPECIAL))
+        elif r < p_special + 0.08:
+            out.append(rng.choice(F_EXTREME[dt]))
         else:
             out.append(repr(float(rng.choice([-3, -1, 0, 1, 2, 5, 7])) + rng.choice([0.0, 0.5, 0.25])))
     return out
 
 
-def int_col(rng, n, dt):
+def int_vals(rng, n, dt):
     lo, hi = bounds(dt)
+    if dt == "bool":
+        return [rng.randrange(0, 2) for _ in range(n)]
     return [rng.choice([lo, hi, lo + 1, hi - 1, 0, 1, rng.randrange(max(lo, -50), min(hi, 50) + 1)]) for _ in range(n)]
 
 
-def gen_cases(tier, rng):
-    nrand = {"quick": 60, "thorough": 1500, "search": 800}.get(tier, 60)
-    cases = []
-    # ---- span reductions over float columns with specials, and over every integer dtype at its bounds --------------------
+def num_col(rng, n, dt, p_special=0.3):
+    return {"k": "num", "dt": dt, "v": float_vals(rng, n, dt, p_special) if dt in FLOAT_DTYPES else int_vals(rng, n, dt)}
+
+
+def fixed_col(rng, n, width=None):
+    width = width or rng.choice([1, 2, 4])
+    pool = [x for x in FIXED_BYTES if len(x) <= width] + ["9" * width]
+    return {"k": "fixed", "dt": "S%d" % width, "v": [rng.choice(pool) for _ in range(n)]}
+
+
+def idx_col(rng, n):
+    return {"k": "indexed", "dt": "indexed", "v": [rng.choice(STRS) for _ in range(n)]}
+
+
+def cat_col(rng, n, dt=None):
+    dt = dt or rng.choice(["int8", "int16", "int32"])
+    lo, hi = bounds(dt)
+    keys = {"lo": lo, "zero": 0, "one": 1, "hi": hi, "é": 2}
+    return {"k": "categorical", "dt": dt, "keys": keys, "v": [rng.choice(list(keys.values())) for _ in range(n)]}
+
+
+def ts_col(rng, n, p_special=0.2):
+    pool = ["0.0", "-1.0", "1.5", "1600000000.0", "1600000000.5", "-86400.0", "4102444800.0", "253402300799.0"]
+    return {"k": "timestamp", "dt": "float64", "v": [rng.choice(SPECIAL) if rng.random() < p_special else rng.choice(pool)
+                                                     for _ in range(n)]}
+
+
+def any_col(rng, n, kinds=("num", "fixed", "indexed", "categorical", "timestamp"), dts=FIELD_DTYPES):
+    k = rng.choice(list(kinds))
+    if k == "num":
+        return num_col(rng, n, rng.choice(list(dts)))
+    return {"fixed": fixed_col, "indexed": idx_col, "categorical": cat_col, "timestamp": ts_col}[k](rng, n)
+
+
+def grouped_float(rng, dt, where):
+    """a float column of three groups (spans [0,3,4,7]) with a NaN as the first / middle / last row of a group"""
+    base = ["2.5", "1.0", "3.0", "7.0", "-1.0", "4.0", "0.5"]
+    pos = {"first": [0, 4], "middle": [1, 5], "last": [2, 6]}[where]
+    for p in pos[:rng.randrange(1, 3)]:
+        base[p] = "nan"
+    return {"k": "num", "dt": dt, "v": base}, [0, 3, 4, 7]
+
+
+def col_len(col):
+    return len(col["v"])
+
+
+def sorted_col(col):
+    """the column with its rows in ascending order of the library's own comparison (NaN-free columns only)"""
+    c = dict(col)
+    if col["k"] in ("num", "timestamp", "categorical") and col["dt"] in FLOAT_DTYPES:
+        c["v"] = sorted(col["v"], key=float)
+    elif col["k"] == "fixed":
+        c["v"] = sorted(col["v"], key=lambda x: x.rstrip("\x00").encode("latin-1"))
+    elif col["k"] == "indexed":
+        c["v"] = sorted(col["v"], key=lambda x: x.encode("utf-8"))
+    else:
+        c["v"] = sorted(col["v"])
+    return c
+
+
+def has_special(col):
+    return col["dt"] in FLOAT_DTYPES and any(x in ("nan", "inf", "-inf", "-0.0") or x in F_EXTREME["float32"] + F_EXTREME["float64"]
+                                             for x in col["v"])
+
+
+def at_bounds(col):
+    if col["k"] in ("fixed", "indexed"):
+        return any(("\x00" in x or x != x.strip() or any(ord(ch) > 127 for ch in x) or x == "") for x in col["v"])
+    if col["dt"] in FLOAT_DTYPES:
+        return has_special(col)
+    lo, hi = bounds(col["dt"])
+    return any(x in (lo, hi) for x in col["v"])
+
+
+# ------------------------------------------------------------------------------------------------------------------
+# generators: families
+# ------------------------------------------------------------------------------------------------------------------
+def pick(rng, seq, k):
+    seq = list(seq)
+    return seq if len(seq) <= k else rng.sample(seq, k)
+
+
+def gen_spans(tier, rng, n):
+    out = []
+    for _ in range(n):
+        m = rng.choice([0, 1, 2, rng.randrange(3, 12)])
+        entry = rng.choice(["field", "h5field", "array", "two", "three", "two_fields", "multi", "dest"])
+        c = any_col(rng, m, dts=NUM_DTYPES if entry in ("array", "two", "three", "multi") else FIELD_DTYPES,
+                    kinds=("num", "num", "num", "fixed", "indexed", "categorical", "timestamp") if entry in ("field", "h5field", "two_fields", "dest")
+                    else ("num", "num", "fixed"))
+        if c["k"] == "num" and c["dt"] in FLOAT_DTYPES:
+            c = num_col(rng, m, c["dt"], 0.5)
+        b = rng.choice([num_col(rng, m, rng.choice(NUM_DTYPES)), fixed_col(rng, m)])
+        out.append({"op": "x_spans", "entry": entry, "a": c, "b": b, "c": num_col(rng, m, "int8")})
+    return out
+
+
+def gen_apply(tier, rng, n):
+    out = []
     hand = [(["1.0", "nan", "3.0"], [0, 3]), (["nan", "1.0", "3.0"], [0, 3]), (["3.0", "nan", "5.0", "2.0", "nan"], [0, 2, 5]),
             (["-0.0", "0.0"], [0, 2]), (["0.0", "-0.0"], [0, 2]), (["inf", "nan", "-inf"], [0, 1, 3]), (["nan", "nan"], [0, 2])]
     for data, sp in hand:
         for fn in SRC_FNS + IDX_FNS:
             for dt in FLOAT_DTYPES:
                 for level in ("ops", "session", "field"):
-                    cases.append({"op": "x_apply", "fn": fn, "level": level, "dtype": dt, "data": data, "spans": sp})
-    for t in range(nrand):
-        n = rng.choice([1, 2, 3, rng.randrange(4, 12), rng.randrange(12, 40)])
-        fl = rng.random() < 0.6
-        dt = rng.choice(FLOAT_DTYPES if fl else INT_DTYPES)
-        data = float_col(rng, n) if fl else int_col(rng, n, dt)
-        cases.append({"op": "x_apply", "fn": rng.choice(SRC_FNS + IDX_FNS), "level": rng.choice(["ops", "session", "field"]),
-                      "dtype": dt, "data": data, "spans": rand_spans(rng, n), "sdtype": rng.choice(["int32", "int64"])})
-    # ---- groupby min/max/first/last over float targets with NaN ------------------------------------------------------------
-    for t in range(max(nrand // 4, 8)):
-        n = rng.randrange(1, 14)
-        keys = sorted(rng.randrange(0, 4) for _ in range(n))
+                    if tier == "quick" and rng.random() < 0.8:
+                        continue
+                    if level == "field" and fn in IDX_FNS:
+                        level = "session_dest"
+                    out.append({"op": "x_apply", "fn": fn, "level": level, "col": {"k": "num", "dt": dt, "v": data}, "spans": sp,
+                                "sdtype": "int32"})
+    for where in ("first", "middle", "last"):
+        for dt in FLOAT_DTYPES:
+            for fn in pick(rng, SRC_FNS + IDX_FNS, 2 if tier == "quick" else 6):
+                col, sp = grouped_float(rng, dt, where)
+                out.append({"op": "x_apply", "fn": fn, "level": rng.choice(["ops", "session", "field", "h5field"] if fn in SRC_FNS else ["ops", "session"]),
+                            "col": col, "spans": sp, "sdtype": rng.choice(["int32", "int64"]), "_nan_at": where})
+    for _ in range(n):
+        m = rng.choice([0, 1, 1, 2, 3, rng.randrange(4, 12), rng.randrange(4, 12), rng.randrange(12, 40)])
+        level = rng.choice(["ops", "ops_dest", "session", "session_dest", "field", "h5field", "field_target", "field_inplace", "filter_form"])
+        fn = rng.choice(SRC_FNS + IDX_FNS + NOSRC_FNS)
+        if level in ("field", "h5field", "field_target", "field_inplace"):
+            fn = rng.choice(SRC_FNS)
+            col = any_col(rng, m, kinds=("num", "num", "num", "fixed", "indexed", "categorical", "timestamp"))
+        elif level == "filter_form":
+            fn = rng.choice(["index_of_min", "index_of_max", "index_of_first", "index_of_last"])
+            col = num_col(rng, m, rng.choice(NUM_DTYPES))
+        else:
+            col = rng.choice([num_col(rng, m, rng.choice(NUM_DTYPES)), num_col(rng, m, rng.choice(FLOAT_DTYPES)), fixed_col(rng, m)])
+            if col["k"] == "fixed" and fn in IDX_FNS:
+                fn = rng.choice(SRC_FNS)          # argmin / argmax of a bytes array exists in neither mode
+        sdt = rng.choice(INT_DTYPES if rng.random() < 0.5 else ["int32", "int64"])
+        sp = rand_spans(rng, m, empty=(level == "filter_form" and rng.random() < 0.6)) if m else [0]      # an empty column has no span
+        if bounds(sdt)[1] < m:
+            sdt = "int32"
+        out.append({"op": "x_apply", "fn": fn, "level": level, "col": col, "spans": sp, "sdtype": sdt,
+                    "sform": rng.choice(["ndarray", "ndarray", "field", "h5field"]) if level.startswith("field") or level == "h5field" else "ndarray",
+                    "tform": rng.choice(["ndarray"] * 8 + ["field"] * 4 + ["h5field"] * 2 + ["list"]) if level.startswith("session") else "ndarray"})
+    # spans of a narrow dtype whose LAST boundary is the dtype's largest value
+    for sdt, top in (("int8", 127), ("uint8", 255)) + ((("int16", 32767), ("uint16", 65535)) if tier != "quick" else ()):
+        for fn in pick(rng, SRC_FNS + IDX_FNS + NOSRC_FNS, 3 if tier == "quick" else 9):
+            dt = rng.choice(NUM_DTYPES)
+            col = num_col(rng, top, dt)
+            cuts = sorted(rng.sample(range(1, top), 4))
+            out.append({"op": "x_apply", "fn": fn, "level": rng.choice(["ops", "session", "field"]) if fn in SRC_FNS else rng.choice(["ops", "session"]),
+                        "col": col, "spans": [0] + cuts + [top], "sdtype": sdt, "_top": True})
+    return out
+
+
+def gen_concat(tier, rng, n):
+    out = []
+    for _ in range(n):
+        m = rng.randrange(0, 10)
+        col = idx_col(rng, m)
         if rng.random() < 0.4:
-            rng.shuffle(keys)
-        cases.append({"op": "x_groupby", "agg": rng.choice(["min", "max", "first", "last"]), "keys": keys,
-                      "dtype": rng.choice(FLOAT_DTYPES), "data": float_col(rng, n, 0.4)})
-    # ---- apply_index / apply_filter with narrow index / filter dtypes at their largest value ------------------------------
-    for idt, top in (("int8", 127), ("uint8", 255), ("int16", 300), ("int32", 300), ("uint16", 300), ("int64", 300)):
-        for kind in ("indexed", "numeric", "fixed"):
-            for n in (top + 1, top + 45) if top < 300 else (40,):
-                hi = min(top, n - 1)
+            col["v"] = [rng.choice(["a,b", 'q"q', "", ",", '"', "x", "é,"]) for _ in range(m)]
+        backing = rng.choice(["mem", "h5"])
+        out.append({"op": "x_concat", "col": col, "spans": rand_spans(rng, m) if m else [0], "sdtype": rng.choice(INT_DTYPES),
+                    "src_cs": rng.choice([None, 1, 2, 3] if backing == "h5" else [1, 2, 3, 64]),      # (a memory field has no chunk size)
+                    "dest_cs": rng.choice([None, 1, 4, 16] if backing == "h5" else [1, 4, 16]), "mult": rng.choice([None, 2, 16]),
+                    "backing": backing})
+    return out
+
+
+def gen_filter_index(tier, rng, n):
+    out = []
+    # narrow index dtypes at their largest value (the row after the index is read at position i + 1)
+    tops = (("int8", 127), ("uint8", 255)) + ((("int16", 32767), ("uint16", 65535)) if tier != "quick" else ())
+    for idt, top in tops:
+        for kind in ("indexed", "num", "fixed"):
+            for m in (top + 1, top + 45):
+                hi = min(top, m - 1)
                 idx = [hi, 0, hi - 1, 1, hi] + [rng.randrange(0, hi + 1) for _ in range(6)]
-                cases.append({"op": "x_apply_index", "kind": kind, "n": n, "idtype": idt, "index": idx,
-                              "entry": rng.choice(["field", "session", "frame"])})
-    for t in range(max(nrand // 3, 10)):
-        idt = rng.choice(["int8", "uint8", "int16", "uint16", "int32", "uint32", "int64", "uint64"])
+                out.append({"op": "x_index", "kind": kind, "n": m, "idtype": idt, "index": idx,
+                            "entry": rng.choice(["field", "session", "frame", "frame_inplace", "h5field", "field_target"]), "_top": True})
+    for _ in range(n):
+        idt = rng.choice(INT_DTYPES)
         lo, hi = bounds(idt)
-        n = rng.choice([1, 5, 130, 260])
-        top = min(hi, n - 1)
+        m = rng.choice([1, 5, 130, 260])
+        top = min(hi, m - 1)
         idx = [rng.choice([top, 0, top // 2, rng.randrange(0, top + 1)]) for _ in range(rng.randrange(0, 9))]
-        cases.append({"op": "x_apply_index", "kind": rng.choice(["indexed", "numeric", "fixed"]), "n": n, "idtype": idt, "index": idx,
-                      "entry": rng.choice(["field", "session", "frame"])})
-        fdt = rng.choice(["bool", "int8", "uint8", "int32", "int64", "float64"])
-        m = rng.choice([1, 4, 9, 130])
-        flt = [rng.choice([0, 1, 1, 2 if fdt != "bool" else 1]) for _ in range(m)]
-        cases.append({"op": "x_apply_filter", "kind": rng.choice(["indexed", "numeric", "fixed"]), "n": m, "fdtype": fdt, "filter": flt,
-                      "entry": rng.choice(["field", "session", "frame"])})
-    # ---- spans of float columns (NaN != NaN) and of every integer dtype ------------------------------------------------------
-    for t in range(max(nrand // 3, 10)):
-        n = rng.randrange(0, 12)
-        fl = rng.random() < 0.6
-        dt = rng.choice(FLOAT_DTYPES if fl else INT_DTYPES)
-        a = float_col(rng, n, 0.5) if fl else int_col(rng, n, dt)
-        b = [rng.randrange(0, 2) for _ in range(n)]
-        cases.append({"op": "x_spans", "dtype": dt, "a": a, "b": b, "entry": rng.choice(["field", "array", "two", "multi"])})
-    # ---- non-streaming and streaming maps of float / unsigned columns ----------------------------------------------------------
-    for t in range(max(nrand // 3, 10)):
-        n = rng.randrange(1, 10)
-        fl = rng.random() < 0.5
-        dt = rng.choice(FLOAT_DTYPES if fl else ["uint8", "uint64", "int8", "bool"])
-        src = float_col(rng, n, 0.4) if fl else ([rng.randrange(0, 2) for _ in range(n)] if dt == "bool" else int_col(rng, n, dt))
+        if lo < 0 and rng.random() < 0.3:
+            idx = [x - m if rng.random() < 0.5 and x - m >= lo else x for x in idx]       # negative subscripts, as numpy allows
+        col = any_col(rng, min(m, 12)) if m <= 5 else None
+        out.append({"op": "x_index", "kind": rng.choice(["indexed", "num", "fixed"]), "n": m, "col": col, "idtype": idt, "index": idx,
+                    "iform": rng.choice(["ndarray"] * 12 + ["field"] * 5 + ["h5field"] * 3 + ["list"]),
+                    "entry": rng.choice(["field", "session", "session_arr", "session_dest", "frame", "frame_inplace", "h5field", "field_target",
+                                         "field_inplace"])})
+        fdt = rng.choice(["bool", "bool", "bool", "int8", "uint8", "int16", "uint16", "int32", "uint32", "int64", "float32", "float64"] * 2 + ["uint64"])
+        m = rng.choice([0, 1, 4, 9, 130])
+        flo, fhi = bounds(fdt) if fdt not in FLOAT_DTYPES else (0, 2)
+        flt = [rng.choice([0, 1, 1, fhi, flo]) for _ in range(m)]
+        if fdt in FLOAT_DTYPES:
+            flt = [rng.choice(["0.0", "1.0", "nan", "-0.0", "0.5", "inf"]) for _ in range(m)]
+        col = any_col(rng, m) if m <= 9 else None
+        out.append({"op": "x_filter", "kind": rng.choice(["indexed", "num", "fixed"]), "n": m, "col": col, "fdtype": fdt, "filter": flt,
+                    "fform": rng.choice(["ndarray"] * 12 + ["field"] * 5 + ["h5field"] * 3 + ["list"]),
+                    "entry": rng.choice(["field", "session", "session_arr", "session_dest", "frame", "frame_inplace", "h5field", "field_target",
+                                         "field_inplace"])})
+    return out
+
+
+def gen_sort(tier, rng, n):
+    out = []
+    for _ in range(n):
+        m = rng.choice([0, 1, 2, rng.randrange(3, 12)])
+        keys = [any_col(rng, m, kinds=("num", "num", "num", "fixed", "categorical", "timestamp", "indexed")) for _ in range(rng.choice([1, 1, 2]))]
+        for k in keys:
+            if k["dt"] in FLOAT_DTYPES:
+                k["v"] = [x if x != "nan" or rng.random() < 0.5 else "1.0" for x in k["v"]]
+        out.append({"op": "x_sort", "entry": rng.choice(["sort_values", "sort_values_ddf", "sort_on", "sort_on_same", "sort_index", "sort_index_arr"]),
+                    "keys": keys, "payload": [any_col(rng, m) for _ in range(rng.choice([0, 1, 2]))],
+                    "index": rng.choice([None, "uint32", "int64", "uint8"])})
+    return out
+
+
+def key_col(rng, n, dup=True, kinds=("int", "uint", "float", "fixed", "bool")):
+    """a NaN-free key column in ascending order (numeric at the dtype bounds, floats with -0.0 / 0.0 / +-inf, fixed strings)"""
+    k = rng.choice(list(kinds))
+    if k == "float":
+        dt = rng.choice(FLOAT_DTYPES)
+        pool = ["-inf", "-2.5", "-0.0", "0.0", "1.0", "1.5", "inf"] + F_EXTREME[dt]
+        v = [rng.choice(pool) for _ in range(n)]
+        col = {"k": "num", "dt": dt, "v": v}
+    elif k == "fixed":
+        col = fixed_col(rng, n, rng.choice([2, 4]))
+        col["v"] = [x for x in col["v"]]
+    elif k == "bool":
+        col = {"k": "num", "dt": "bool", "v": [rng.randrange(0, 2) for _ in range(n)]}
+    else:
+        dt = rng.choice(SINT if k == "int" else ["uint8", "uint16", "uint32"])
+        col = {"k": "num", "dt": dt, "v": int_vals(rng, n, dt)}
+    col = sorted_col(col)
+    if not dup:
+        seen, v = set(), []
+        for x in col["v"]:
+            kx = float(x) if col["dt"] in FLOAT_DTYPES else (x.rstrip("\x00") if col["k"] == "fixed" else x)
+            if kx not in seen:
+                seen.add(kx)
+                v.append(x)
+        col["v"] = v
+    return col
+
+
+def same_kind_key(rng, col, n, dup=True):
+    """a second sorted key column of the same field type / dtype as `col`, sharing about half of its values"""
+    pool = list(col["v"]) or [0 if col["k"] == "num" and col["dt"] not in FLOAT_DTYPES else ("0.0" if col["k"] == "num" else "")]
+    other = key_col(rng, n, True, kinds=("float",) if col["dt"] in FLOAT_DTYPES else ("fixed",) if col["k"] == "fixed" else
+                    ("bool",) if col["dt"] == "bool" else ("int",))
+    if col["k"] == "fixed":
+        other = fixed_col(rng, n, int(col["dt"][1:]))
+    elif col["dt"] in FLOAT_DTYPES:
+        other = {"k": "num", "dt": col["dt"], "v": [rng.choice(["-inf", "-2.5", "-0.0", "0.0", "1.0", "inf"] + F_EXTREME[col["dt"]]) for _ in range(n)]}
+    elif col["dt"] != "bool":
+        other = {"k": "num", "dt": col["dt"], "v": int_vals(rng, n, col["dt"])}
+    v = [rng.choice(pool) if rng.random() < 0.5 else x for x in other["v"]]
+    out = sorted_col({**col, "v": v})
+    if not dup:
+        seen, w = set(), []
+        for x in out["v"]:
+            kx = float(x) if col["dt"] in FLOAT_DTYPES else (x.rstrip("\x00") if col["k"] == "fixed" else x)
+            if kx not in seen:
+                seen.add(kx)
+                w.append(x)
+        out["v"] = w
+    return out
+
+
+def is_unique(col):
+    ks = [float(x) if col["dt"] in FLOAT_DTYPES else (x.rstrip("\x00") if col["k"] == "fixed" else x) for x in col["v"]]
+    return len(set(ks)) == len(ks)
+
+
+def gen_map(tier, rng, n):
+    out = []
+    for _ in range(n):
+        m = rng.randrange(1, 10)
+        src = any_col(rng, m, kinds=("num", "num", "num", "fixed", "indexed"), dts=NUM_DTYPES)
         inv = rng.choice([-1, 2 ** 31 - 1, 2 ** 62])
-        valid = sorted(rng.randrange(0, n) for _ in range(rng.randrange(0, 9)))
-        m = []
+        valid = sorted(rng.randrange(0, m) for _ in range(rng.randrange(0, 9)))
+        mp = []
         for v in valid:
             if rng.random() < 0.3:
-                m.append(inv)
-            m.append(v)
+                mp.append(inv)
+            mp.append(v)
         if rng.random() < 0.5:
-            m.append(inv)
-        cases.append({"op": "x_map", "dtype": dt, "src": src, "map": m, "inv": inv, "cs": rng.choice([1, 2, 3, 1 << 20]),
-                      "mdtype": "int64" if inv > 2 ** 31 else rng.choice(["int32", "int64"]),
-                      "entry": rng.choice(["safe", "map_valid", "stream"])})
-    return cases
+            mp.append(inv)
+        ent = rng.choice(["safe", "map_valid", "stream"])
+        if src["k"] == "indexed":
+            ent = rng.choice(["safe_indexed", "stream_indexed"])
+        if src["k"] == "num" and src["dt"] == "uint64" and ent == "stream":
+            ent = "safe"
+        out.append({"op": "x_map", "src": src, "map": mp, "inv": inv, "cs": rng.choice([1, 2, 3, 1 << 20]),
+                    "mdtype": "int64" if inv > 2 ** 31 else rng.choice(["int32", "int64"]), "entry": ent,
+                    "empty": rng.choice([None, None, "py", "np", "0d"]), "invform": rng.choice(["py", "py", "np", "0d"]),
+                    "csform": rng.choice(["py", "py", "np", "0d"])})
+    return out
+
+
+def gen_merge(tier, rng, n):
+    out = []
+    for _ in range(n):
+        nl, nr = rng.choice([0, 1, 2, 5, 9]), rng.choice([0, 1, 3, 6])
+        lu, ru = rng.random() < 0.5, rng.random() < 0.5
+        lk = key_col(rng, nl, dup=not lu)
+        rk = same_kind_key(rng, lk, nr, dup=not ru)
+        ordered = rng.random() < 0.7
+        if not ordered:
+            for c in (lk, rk):
+                rng.shuffle(c["v"])
+        hints = [ordered, is_unique(lk) and rng.random() < 0.8, ordered, is_unique(rk) and rng.random() < 0.8]
+        if rng.random() < 0.25:
+            hints = [None, None, None, None]
+        out.append({"op": "x_merge", "lk": lk, "rk": rk, "left": [any_col(rng, len(lk["v"])) for _ in range(rng.choice([1, 2]))],
+                    "right": [any_col(rng, len(rk["v"])) for _ in range(rng.choice([1, 2]))],
+                    "how": rng.choice(["left", "right", "inner", "outer"] * 5 + ["cross"]), "hints": hints, "cs": rng.choice([1, 2, 3, 1 << 20]),
+                    "keyform": rng.choice(["name"] * 9 + ["field"]), "subset": rng.random() < 0.3})     # (a Field as key raises TypeError today, in both modes)
+    return out
+
+
+def gen_smerge(tier, rng, n):
+    out = []
+    for _ in range(n):
+        ent = rng.choice(["ordered_left", "ordered_right", "ordered_inner", "merge_left", "merge_right", "merge_inner", "get_index", "join"])
+        nl, nr = rng.choice([1, 2, 5, 9]), rng.choice([1, 3, 6])
+        lu = rng.random() < 0.5
+        lk = key_col(rng, nl, dup=not lu, kinds=("int", "uint", "float", "fixed"))
+        rk = same_kind_key(rng, lk, nr, dup=False)
+        if ent == "ordered_inner":
+            rk = same_kind_key(rng, lk, nr, dup=rng.random() < 0.5)
+        if ent == "ordered_right":
+            lk, rk = rk, lk
+        out.append({"op": "x_smerge", "entry": ent, "lk": lk, "rk": rk, "lu": is_unique(lk) and rng.random() < 0.7, "ru": is_unique(rk) and (ent == "ordered_inner" and rng.random() < 0.7 or rng.random() < 0.97),
+                    "left": [any_col(rng, len(lk["v"]), kinds=("num", "num", "fixed", "indexed", "timestamp"), dts=NUM_DTYPES)],
+                    "right": [any_col(rng, len(rk["v"]), kinds=("num", "num", "fixed", "indexed", "timestamp"), dts=NUM_DTYPES)],
+                    "form": rng.choice(["ndarray", "field", "field_sinks", "streamed", "array_sinks"])})
+    return out
+
+
+def gen_groupby(tier, rng, n):
+    out = []
+    for where in ("first", "middle", "last"):
+        for dt in FLOAT_DTYPES:
+            for agg in pick(rng, ["min", "max", "first", "last"], 1 if tier == "quick" else 4):
+                col, sp = grouped_float(rng, dt, where)
+                out.append({"op": "x_groupby", "agg": agg, "keys": [{"k": "num", "dt": "int32", "v": [0, 0, 0, 1, 2, 2, 2]}], "targets": [col],
+                            "hint": rng.random() < 0.5, "entry": "groupby", "_nan_at": where})
+    for _ in range(n):
+        m = rng.choice([0, 1, 2, rng.randrange(3, 14)])
+        keys = [any_col(rng, m, kinds=("num", "num", "num", "num", "fixed", "fixed", "categorical", "categorical", "indexed"), dts=FIELD_DTYPES)]
+        if rng.random() < 0.3:
+            keys.append(num_col(rng, m, rng.choice(["int8", "int32", "uint8", "bool"])))
+        for k in keys:                                  # few distinct values, so that groups have several rows
+            pool = list(dict.fromkeys(k["v"]))[:3] or k["v"]
+            k["v"] = [rng.choice(pool) for _ in range(m)]
+        is_sorted = rng.random() < 0.6
+        if is_sorted and len(keys) == 1 and not any(x == "nan" for x in keys[0]["v"]):
+            keys[0] = sorted_col(keys[0])
+        else:
+            is_sorted = False
+        out.append({"op": "x_groupby", "agg": rng.choice(["min", "max", "first", "last", "count", "distinct", "drop_duplicates"]),
+                    "keys": keys, "targets": [any_col(rng, m, kinds=("num", "num", "num", "fixed", "indexed", "categorical", "timestamp"))
+                                              for _ in range(rng.choice([1, 2]))],
+                    "hint": is_sorted and rng.random() < 0.5, "entry": "groupby", "write_keys": rng.random() < 0.8})
+    return out
+
+
+def gen_aggregate(tier, rng, n):
+    out = []
+    for where in ("first", "middle", "last"):
+        for dt in FLOAT_DTYPES if tier != "quick" else [rng.choice(FLOAT_DTYPES)]:
+            col, sp = grouped_float(rng, dt, where)
+            out.append({"op": "x_aggregate", "fn": rng.choice(["min", "max"]), "index": {"k": "num", "dt": "int16", "v": [5, 5, 5, 6, 9, 9, 9]}, "iform": "ndarray",
+                        "tform": rng.choice(["ndarray", "field"]), "target": col, "dest": rng.random() < 0.4, "_nan_at": where})
+    for _ in range(n):
+        m = rng.choice([1, 2, rng.randrange(3, 14)])
+        idx = any_col(rng, m, kinds=("num", "num", "fixed", "indexed"), dts=NUM_DTYPES)
+        pool = list(dict.fromkeys(idx["v"]))[:3]
+        idx["v"] = [rng.choice(pool) for _ in range(m)]
+        if rng.random() < 0.6 and not any(x == "nan" for x in idx["v"]):
+            idx = sorted_col(idx)
+        out.append({"op": "x_aggregate", "fn": rng.choice(["count", "first", "last", "min", "max"]), "index": idx,
+                    "iform": rng.choice(["ndarray", "field"]), "tform": rng.choice(["ndarray", "field"]),
+                    "target": any_col(rng, m, kinds=("num", "num", "num", "fixed"), dts=NUM_DTYPES), "dest": rng.random() < 0.4})
+    return out
+
+
+def gen_isin_unique(tier, rng, n):
+    out = []
+    for _ in range(n):
+        m = rng.choice([0, 1, 2, rng.randrange(3, 12)])
+        col = any_col(rng, m)
+        pool = list(col["v"]) + (["nan", "0.0", "-0.0", "inf"] if col["dt"] in FLOAT_DTYPES else
+                                 STRS[:6] if col["k"] == "indexed" else FIXED_BYTES[:6] if col["k"] == "fixed" else [0, 1, -1, 255, 2 ** 31])
+        test = [rng.choice(pool) for _ in range(rng.randrange(0, 5))]
+        out.append({"op": "x_isin", "col": col, "test": test, "tform": rng.choice(["list", "ndarray", "set", "tuple", "scalar", "npscalar", "0d"]),
+                    "backing": rng.choice(["mem", "h5", "module"])})
+        col = any_col(rng, m)
+        if m and rng.random() < 0.7:
+            pool = list(dict.fromkeys(col["v"]))[:4]
+            col["v"] = [rng.choice(pool) for _ in range(m)]
+        out.append({"op": "x_unique", "col": col, "flags": [rng.random() < 0.5 for _ in range(3)], "backing": rng.choice(["mem", "h5"])})
+    return out
+
+
+JOURNAL_POOL = {"float": ["nan", "1.0", "-0.0", "0.0", "inf"], "fixed": ["a", "a ", "a\x00b", "ab", "\xff", ""], "indexed": ["", "a", "ab", "é", "a "]}
+
+
+def gen_journal(tier, rng, n):
+    out = []
+    # one journalled column of each kind, every record present on both sides: cell unchanged / changed (NaN on both sides is unchanged)
+    hand = [("num", "int8", [127, -128, 0], [127, -128, 1]), ("num", "bool", [1, 0, 1], [1, 0, 0]), ("num", "uint32", [2 ** 32 - 1, 0, 5], [2 ** 32 - 1, 0, 5]),
+            ("num", "float64", ["nan", "1.0", "-0.0"], ["nan", "1.0", "0.0"]), ("num", "float32", ["nan", "inf", "1.5"], ["1.0", "inf", "nan"]),
+            ("fixed", "S3", ["a", "a ", "\xff"], ["a", "a ", "\xff"]), ("fixed", "S3", ["a", "a\x00b", ""], ["a", "a", "b"]),
+            ("indexed", "indexed", ["", "é", "ab"], ["", "é", "ab"]), ("indexed", "indexed", ["a", "é", "ab"], ["a ", "e", "ab"])]
+    for k, dt, o, nw in hand:
+        out.append({"op": "x_journal", "kdtype": rng.choice(["int64", "int32", "S2"]), "old_ids": [1, 2, 3], "new_ids": [1, 2, 3], "old_vf": [1.0, 1.0, 1.0],
+                    "jcols": [{"k": k, "dt": dt, "o": o, "n": nw}], "_hand": True})
+    for _ in range(n):
+        no, nn = rng.randrange(0, 6), rng.randrange(0, 6)
+        kd = rng.choice(["int64", "int32", "S2", "uint8"])
+        pool = list(range(0, 6)) if kd != "uint8" else [0, 1, 2, 254, 255]
+        old_ids = [rng.choice(pool) for _ in range(no)]
+        new_ids = rng.sample(pool, min(nn, len(pool)))
+        cols = []
+        for _c in range(rng.choice([1, 2])):
+            kind = rng.choice(["num", "float", "fixed", "indexed"])
+            if kind == "num":
+                dt = rng.choice(["bool"] + INT_DTYPES[:7])
+                vals = lambda m, dt=dt: [rng.choice([bounds(dt)[1], bounds(dt)[0], 0, 1]) for _ in range(m)]
+                c = {"k": "num", "dt": dt}
+            elif kind == "float":
+                c = {"k": "num", "dt": rng.choice(FLOAT_DTYPES)}
+                vals = lambda m: [rng.choice(JOURNAL_POOL["float"]) for _ in range(m)]
+            elif kind == "fixed":
+                c = {"k": "fixed", "dt": "S3"}
+                vals = lambda m: [rng.choice(JOURNAL_POOL["fixed"]) for _ in range(m)]
+            else:
+                c = {"k": "indexed", "dt": "indexed"}
+                vals = lambda m: [rng.choice(JOURNAL_POOL["indexed"]) for _ in range(m)]
+            c["o"] = vals(no)
+            fresh = vals(len(new_ids))
+            # a snapshot row of a key the old table holds repeats one of that key's old cells with probability 0.65 (unchanged cell)
+            c["n"] = [c["o"][rng.choice([j for j, x in enumerate(old_ids) if x == i])] if i in old_ids and rng.random() < 0.65 else fresh[t]
+                      for t, i in enumerate(new_ids)]
+            cols.append(c)
+        vf = [float(rng.choice([1, 2, 3])) for _ in range(no)]
+        out.append({"op": "x_journal", "kdtype": kd, "old_ids": old_ids, "new_ids": new_ids, "old_vf": vf, "jcols": cols})
+    return out
+
+
+CSV_NUM_TEXT = {"float": ["1.5", "nan", "NaN", "inf", "-inf", "-0.0", "0.0", "1e400", "-1e400", "1e-320", "5e-324", "3.5e38", "1e39", " 2.5 ", "",
+                          "abc", "1e", "0x10", "1_0", "١٢", "1.0e+2", ".5", "5.", "+1.5", "infinity", "-nan", "1,5"],
+                "int": ["0", "1", "-1", "", "abc", " 7 ", "+5", "1.0", "1e3", "0x1f", "1_000", "١٢", "007", "-0"]}
+
+
+def gen_import(tier, rng, n):
+    out = []
+    out.append({"op": "x_import", "cols": [{"name": "f0", "kind": "fixed", "strlen": 4, "cells": ["é", "日本", "a", "\xff\xfe", ""]}], "crs": 16, "quote": False, "_hand": True})
+    out.append({"op": "x_import", "cols": [{"name": "f0", "kind": "indexed", "cells": ["a", "b,c", "", "é"]}, {"name": "f1", "kind": "fixed", "strlen": 2, "cells": ["x", "", "yz", "é"]}],
+                "crs": 16, "quote": True, "_hand": True})
+    # quoted cells whose closing / doubled quote falls on the last byte of a read window (2 * chunk_row_size * columns bytes)
+    for crs in (4, 6):
+        for pad in range(0, 8) if tier != "quick" else range(crs // 4 - 1, 8, 2):
+            out.append({"op": "x_import", "cols": [{"name": "f0", "kind": "indexed", "cells": ["p" * pad, "abc", 'q"r', "de", "", "x"]}], "crs": crs,
+                        "quote": True, "_hand": True})
+    for dt, big in (("float32", "1e39"), ("float64", "1e400")):
+        out.append({"op": "x_import", "cols": [{"name": "f0", "kind": "float", "dtype": dt, "mode": rng.choice(["strict", "allow_empty", "relaxed"]), "invalid": 0,
+                                                "cells": [big, "-" + big, "1.5", "nan", "5e-324"]}], "crs": rng.choice([4, 1 << 20]), "quote": False, "_hand": True})
+    for _ in range(n):
+        rows = rng.choice([0, 1, 2, rng.randrange(3, 9)])
+        cols = []
+        for ci in range(rng.choice([1, 2, 3])):
+            kind = rng.choice(["int", "int", "float", "float", "bool", "fixed", "indexed", "categorical", "leaky", "datetime", "date"])
+            c = {"name": "f%d" % ci, "kind": kind}
+            if kind == "int":
+                dt = rng.choice([d for d in FIELD_DTYPES if d not in FLOAT_DTYPES and d != "bool"])
+                lo, hi = bounds(dt)
+                pool = CSV_NUM_TEXT["int"] + [str(lo), str(hi), str(lo - 1), str(hi + 1), str(hi) + "0", str(2 ** 63), str(2 ** 64), str(-2 ** 63 - 1)]
+                c.update(dtype=dt, mode=rng.choice(["strict", "allow_empty", "relaxed"]), invalid=rng.choice([0, -1 if lo < 0 else 1, hi]))
+                good = rng.random() < 0.6
+                c["cells"] = [rng.choice([str(lo), str(hi), "0", "1", str(hi - 1)] if good else pool) for _ in range(rows)]
+            elif kind == "float":
+                dt = rng.choice(FLOAT_DTYPES)
+                c.update(dtype=dt, mode=rng.choice(["strict", "allow_empty", "relaxed"]), invalid=rng.choice([0, -1.5, "nan"]))
+                good = rng.random() < 0.6
+                c["cells"] = [rng.choice(CSV_NUM_TEXT["float"][:13] if good else CSV_NUM_TEXT["float"]) for _ in range(rows)]
+            elif kind == "bool":
+                c.update(mode=rng.choice(["strict", "allow_empty", "relaxed"]), invalid=rng.choice([0, 1]))
+                c["cells"] = [rng.choice(["true", "false", "True", "FALSE", "1", "0", "t", "f", "y", "n", "yes", "no", "", "2", "x", " 1", "TRUE "])
+                              for _ in range(rows)]
+            elif kind == "fixed":
+                c.update(strlen=rng.choice([1, 2, 4]))
+                c["cells"] = [rng.choice(["", "a", "ab", "abcd", "abcde", "é", "ab ", " a", "日本", "x y"]) for _ in range(rows)]
+            elif kind == "indexed":
+                c["cells"] = [rng.choice(["", "a", "ab", "é", "日本", "a b", "x" * 9, " a "]) for _ in range(rows)]
+            elif kind in ("categorical", "leaky"):
+                vt = rng.choice(["int8", "int16", "int32"])
+                c.update(vtype=vt, cats={"": 0, "a": 1, "b": bounds(vt)[1], "é": bounds(vt)[0], "ab": 2})
+                c["cells"] = [rng.choice(["", "a", "b", "é", "ab"] + (["zz", "A", " a"] if kind == "leaky" or rng.random() < 0.1 else []))
+                              for _ in range(rows)]
+            else:
+                c.update(day=rng.random() < 0.5, flag=rng.random() < 0.5)
+                pool = ["", "2020-01-02", "1970-01-01", "9999-12-31", "0001-01-01", "2020-02-30"] if kind == "date" else \
+                       ["", "2020-01-02 03:04:05", "1970-01-01 00:00:00", "2020-01-02 03:04:05.123456+01:00", "2020-01-02 03:04:05.1 UTC",
+                        "9999-12-31 23:59:59", "0001-01-01 00:00:00", "1969-12-31 23:59:59.999999+00:00"]
+                c["cells"] = [rng.choice(pool) for _ in range(rows)]
+            cols.append(c)
+        out.append({"op": "x_import", "cols": cols, "crs": rng.choice([4, 6, 9, 16, 1 << 20]), "quote": rng.random() < 0.3})
+    return out
+
+
+def gen_export(tier, rng, n):
+    out = []
+    for _ in range(n):
+        m = rng.choice([0, 1, 2, rng.randrange(3, 9)])
+        cols = [any_col(rng, m) for _ in range(rng.choice([1, 2, 3]))]
+        out.append({"op": "x_export", "entry": rng.choice(["to_csv", "to_csv", "to_pandas"]), "cols": cols,
+                    "crs": rng.choice([1, 2, 1 << 15]), "rfilter": rng.choice([None, None, "ndarray", "field", "own"]),
+                    "filter": [rng.randrange(0, 2) for _ in range(m)], "cfilter": rng.choice([None, None, "c0"])})
+    return out
+
+
+ARITH_OPS = ["add", "sub", "mul", "truediv", "floordiv", "mod", "divmod", "and", "or", "xor", "lt", "le", "eq", "ne", "gt", "ge",
+             "radd", "rsub", "rmul", "rtruediv", "rfloordiv", "rmod", "rdivmod", "rand", "ror", "rxor", "invert", "logical_not"]
+
+
+def gen_arith(tier, rng, n):
+    out = []
+    fmax = {"float32": "3.4028234663852886e+38", "float64": "1.7976931348623157e+308"}
+    hand = []
+    for dt in FLOAT_DTYPES:
+        big = {"k": "num", "dt": dt, "v": [fmax[dt], "-" + fmax[dt], "1.0", "nan"]}
+        tiny = {"k": "num", "dt": dt, "v": [F_EXTREME[dt][0], F_EXTREME[dt][0], "0.0", "-0.0"]}
+        hand += [("mul", big, big, "field"), ("add", big, big, "ndarray"), ("sub", big, {**big, "v": list(reversed(big["v"]))}, "field"),
+                 ("truediv", big, tiny, "field"), ("mul", big, None, "pyfloat"), ("rtruediv", tiny, None, "pyfloat"),
+                 ("floordiv", big, tiny, "ndarray"), ("mod", big, tiny, "field"), ("divmod", big, tiny, "field"), ("rsub", big, None, "pyfloat")]
+    for dt in ["int8", "uint8", "int32", "uint32", "int64", "bool"]:
+        lo, hi = bounds(dt)
+        a = {"k": "num", "dt": dt, "v": [hi, lo, 1, 0]}
+        z = {"k": "num", "dt": dt, "v": [0, 0, 0, 0]}
+        hand += [("add", a, a, "field"), ("mul", a, a, "ndarray"), ("sub", z, a, "field"), ("rsub", a, None, "pyint"), ("truediv", a, z, "field"),
+                 ("floordiv", a, z, "ndarray"), ("mod", a, z, "field"), ("divmod", a, z, "field"), ("invert", a, a, "field"), ("xor", a, a, "pybool")]
+    for fn, a, b, of in (hand if tier != "quick" else pick(rng, hand, 24)):
+        out.append({"op": "x_arith", "fn": fn, "a": a, "b": b or a, "oform": of, "scalar": "1e308" if of == "pyfloat" and a["dt"] == "float64" else
+                    "1e39" if of == "pyfloat" else 1, "sdt": "int64", "backing": rng.choice(["mem", "h5"]), "_hand": True})
+    for _ in range(n):
+        m = rng.choice([0, 1, rng.randrange(2, 8)])
+        k = rng.choice(["num", "num", "num", "num", "categorical", "timestamp"])
+        dt = rng.choice(FIELD_DTYPES)
+        a = num_col(rng, m, dt, 0.4) if k == "num" else cat_col(rng, m) if k == "categorical" else ts_col(rng, m)
+        oform = rng.choice(["field", "field", "ndarray", "pyint", "pyfloat", "pybool", "npscalar", "0d", "list"])
+        bdt = rng.choice(FIELD_DTYPES + ["uint64"])
+        b = num_col(rng, m, bdt, 0.4)
+        if rng.random() < 0.3:                # a zero divisor / the value whose negation overflows
+            b["v"] = [rng.choice(["0.0", "-0.0"]) if bdt in FLOAT_DTYPES else 0 for _ in range(m)]
+        sc = rng.choice([0, 1, -1, 2, 255, 256, 2 ** 31 - 1, 2 ** 31, 2 ** 63 - 1, -2 ** 63, 2 ** 64 - 1]) if oform in ("pyint", "npscalar", "0d") else \
+            rng.choice(["0.0", "-0.0", "nan", "inf", "1e308", "1e39", "2.5", "5e-324"]) if oform == "pyfloat" else rng.choice([0, 1])
+        fn = rng.choice(ARITH_OPS)
+        bitwise = fn.lstrip("r") in ("and", "or", "xor", "invert") or fn == "or"
+        if bitwise and rng.random() < 0.85:
+            idts = [d for d in FIELD_DTYPES if d not in FLOAT_DTYPES]
+            a = num_col(rng, m, rng.choice(idts))
+            b = num_col(rng, m, rng.choice(idts + ["uint64"]))
+            if oform == "pyfloat":
+                oform = "pyint"
+                sc = rng.choice([0, 1, -1, 255, 2 ** 31 - 1])
+        if k != "num" and fn in ("invert", "logical_not", "and", "or", "xor", "rand", "ror", "rxor") and rng.random() < 0.8:
+            fn = rng.choice(["add", "sub", "lt", "eq", "mul", "truediv", "floordiv"])
+        out.append({"op": "x_arith", "fn": fn, "a": a, "b": b, "oform": oform, "scalar": sc, "sdt": rng.choice(NUM_DTYPES),
+                    "backing": rng.choice(["mem", "mem", "h5"])})
+    return out
+
+
+def gen_date(tier, rng, n):
+    out = []
+    for _ in range(n):
+        m = rng.choice([1, 2, rng.randrange(3, 9)])
+        ts = ts_col(rng, m, rng.choice([0.0, 0.0, 0.2]))
+        out.append({"op": "x_date", "fn": rng.choice(["get_days", "get_days", "periods", "offsets"]), "ts": ts,
+                    "filter": rng.choice([None, "bool", "int8"]), "fv": [rng.randrange(0, 2) for _ in range(m)],
+                    "start": rng.choice([None, "0.0", "1600000000.0", "nan", "-inf"]), "end": rng.choice([None, "1600000000.5", "inf", "nan"]),
+                    "sform": rng.choice(["py", "np", "0d"]),
+                    "period": rng.choice(["day", "days", "week", "weeks"]), "delta": rng.choice([1, 2, 7, 1, 3, -1, -3]),
+                    "d0": rng.choice([0, 1, 18262, 2932890]), "span": rng.choice([1, 6, 7, 30, 30, 60]),
+                    "days": [rng.randrange(0, 30) for _ in range(m)], "ddt": rng.choice(SINT + ["uint8"]), "pdt": rng.choice(SINT)})
+    return out
+
+
+def gen_ops(tier, rng, n):
+    """module-level kernels of exetera.core.operations that no Session / DataFrame / Field method reaches"""
+    out = []
+    for _ in range(n):
+        fn = rng.choice(["check_sorted", "left_size", "inner_size", "outer_size_bu", "last_as_filter", "inner_map", "left_map", "journal_idx",
+                         "inner_lu_partial", "stream_sort"])
+        nl, nr = rng.choice([0, 1, 2, 5, 9]), rng.choice([0, 1, 3, 6])
+        bu = fn in ("outer_size_bu", "inner_lu_partial") or rng.random() < 0.4
+        lk = key_col(rng, nl, dup=not bu, kinds=("int", "uint", "float", "fixed"))
+        rk = same_kind_key(rng, lk, nr, dup=not (bu or fn == "left_map"))
+        if fn == "check_sorted":
+            lk = {"k": "num", "dt": rng.choice(NUM_DTYPES), "v": None}
+            lk["v"] = float_vals(rng, nl, lk["dt"], 0.4) if lk["dt"] in FLOAT_DTYPES else int_vals(rng, nl, lk["dt"])
+            rk = {**lk, "v": float_vals(rng, nl, lk["dt"], 0.4) if lk["dt"] in FLOAT_DTYPES else int_vals(rng, nl, lk["dt"])}
+            if rng.random() < 0.5:
+                lk = sorted_col({**lk, "v": [x if x != "nan" else "1.0" for x in lk["v"]]})
+        if fn == "last_as_filter" and not lk["v"]:
+            lk["v"] = [lk["v"][0]] if lk["v"] else (["1.0"] if lk["dt"] in FLOAT_DTYPES else ["a"] if lk["k"] == "fixed" else [1])   # result[-1] of an empty array: undefined when compiled
+        out.append({"op": "x_ops", "fn": fn, "lk": lk, "rk": rk, "lu": is_unique(lk), "ru": is_unique(rk), "mdtype": rng.choice(["int32", "int64"])})
+    return out
+
+
+FAMILIES = [("spans", gen_spans, 16, 300), ("apply", gen_apply, 40, 1500), ("concat", gen_concat, 8, 200),
+            ("filter_index", gen_filter_index, 16, 500), ("sort", gen_sort, 10, 300), ("map", gen_map, 12, 300),
+            ("merge", gen_merge, 16, 600), ("smerge", gen_smerge, 16, 500), ("groupby", gen_groupby, 16, 500),
+            ("aggregate", gen_aggregate, 10, 300), ("isin_unique", gen_isin_unique, 12, 300), ("journal", gen_journal, 12, 400),
+            ("import", gen_import, 16, 600), ("export", gen_export, 12, 200), ("arith", gen_arith, 40, 1500), ("date", gen_date, 16, 300), ("ops", gen_ops, 12, 400)]
+
+
+BATCH = {"quick": 10, "thorough": 24, "search": 24}
+HEAVY = {"x_merge", "x_smerge", "x_groupby", "x_aggregate", "x_journal", "x_import", "x_concat", "x_sort"}   # many kernels / signatures per case
+BATCH_HEAVY = {"quick": 6, "thorough": 8, "search": 8}     # a batch must stay well below the runner's 90 s stall limit on a loaded machine
+
+
+def sig_key(c):
+    """cases with equal keys call the same kernels at the same numba signatures (approximately): they go into one batch, so
+    that one worker process compiles each signature instead of every worker"""
+    cols = case_cols(c)
+    return canon_key([c["op"], c.get("entry") or c.get("level"), c.get("fn") or c.get("agg"), [x.get("dt") for x in cols],
+                      c.get("sdtype"), c.get("idtype"), c.get("fdtype")])
+
+
+def canon_key(x):
+    import json
+    return json.dumps(x, sort_keys=True, default=str)
+
+
+def gen_cases(tier, rng):
+    from checks import corpus
+    first = [c for c in corpus.load("C11") if c.get("op") in IMPL]        # witnesses of past mode differences: single cases, run first
+    cases = []
+    for name, fn, nq, nt in FAMILIES:
+        n = {"quick": nq, "thorough": nt, "search": max(nt // 2, nq)}.get(tier, nq)
+        cases += fn(tier, rng, n)
+    only = os.environ.get("C11X_ONLY")
+    if only:
+        cases = [c for c in cases if c["op"] in only.split(",")]
+    if only:
+        first = [c for c in first if c["op"] in only.split(",")]
+    if os.environ.get("C11X_FLAT"):
+        return first + cases
+    by_op = {}
+    for c in cases:
+        by_op.setdefault(c["op"], []).append(c)
+    out = []
+    for op in sorted(by_op):
+        size = (BATCH_HEAVY if op in HEAVY else BATCH).get(tier, 6)
+        cs = sorted(by_op[op], key=sig_key)
+        for i in range(0, len(cs), size):
+            out.append({"op": "x_batch", "family": op, "cases": cs[i:i + size]})
+    return first + out
 
 
 # ------------------------------------------------------------------------------------------------------------------
 # implementation (worker process; mode set by the environment)
 # ------------------------------------------------------------------------------------------------------------------
 _S = {}
+RECYCLE_EVERY = 40
 
 
 def _env():
     if not _S:
         import io
         import numpy as np
-        from exetera.core import operations as ops, fields
+        from exetera.core import operations as ops, fields, dataframe
         from exetera.core.session import Session
-        _S.update(np=np, io=io, ops=ops, fields=fields, Session=Session, s=Session())
+        _S.update(np=np, io=io, ops=ops, fields=fields, dataframe=dataframe, Session=Session, s=Session(), hs=None, ds=None, k=0)
     return _S
 
 
-def arr(e, data, dt):
+def h5(e):
+    """a dataset in memory (BytesIO) that is recycled every RECYCLE_EVERY cases; returns (session, dataset, unique prefix)"""
+    e["k"] += 1
+    if e["hs"] is None or e.get("recycle"):
+        e["recycle"] = False
+        import gc
+        if e["hs"] is not None:
+            try:
+                e["hs"].close()
+            except Exception:
+                pass
+            e["hs"] = e["ds"] = None
+            gc.collect()
+        e["hs"] = e["Session"]()
+        e["ds"] = e["hs"].open_dataset(e["io"].BytesIO(), "w", "ds")
+    return e["hs"], e["ds"], "t%d_" % e["k"]
+
+
+def new_df(e, tag="d"):
+    s, ds, p = h5(e)
+    return ds.create_dataframe(p + tag)
+
+
+def raw_fixed(e, vals, width):
     np = e["np"]
+    buf = b"".join(x.encode("latin-1")[:width].ljust(width, b"\x00") for x in vals)
+    return np.frombuffer(buf, dtype="S%d" % width).copy() if width and vals else np.zeros(len(vals), dtype="S%d" % max(width, 1))
+
+
+def arr(e, col):
+    """the column as the ndarray (indexed strings: list of str) the library's `field.data[:]` would hold"""
+    np = e["np"]
+    k, dt, v = col["k"], col["dt"], col["v"]
+    if k == "indexed":
+        return list(v)
+    if k == "fixed":
+        return raw_fixed(e, v, int(dt[1:]))
     if dt in FLOAT_DTYPES:
-        return np.array([float(x) for x in data], dtype=dt)
+        return np.array([float(x) for x in v], dtype=dt)
     if dt == "bool":
-        return np.array(data, dtype=bool)
-    return np.array(data, dtype=dt)
+        return np.array([bool(x) for x in v], dtype=bool)
+    return np.array(v, dtype=dt)
 
 
-def out_vals(e, r):
+def mem_field(e, col):
+    f, s = e["fields"], e["s"]
+    k = col["k"]
+    if k == "indexed":
+        fld = f.IndexedStringMemField(s)
+    elif k == "fixed":
+        fld = f.FixedStringMemField(s, int(col["dt"][1:]))
+    elif k == "categorical":
+        fld = f.CategoricalMemField(s, col["dt"], col["keys"])
+    elif k == "timestamp":
+        fld = f.TimestampMemField(s)
+    else:
+        fld = f.NumericMemField(s, col["dt"])
+    fld.data.write(arr(e, col))
+    return fld
+
+
+def h5_field(e, df, name, col):
+    k = col["k"]
+    if k == "indexed":
+        fld = df.create_indexed_string(name)
+    elif k == "fixed":
+        fld = df.create_fixed_string(name, int(col["dt"][1:]))
+    elif k == "categorical":
+        fld = df.create_categorical(name, col["dt"], col["keys"])
+    elif k == "timestamp":
+        fld = df.create_timestamp(name)
+    else:
+        fld = df.create_numeric(name, col["dt"])
+    fld.data.write(arr(e, col))
+    return fld
+
+
+def frame_of(e, cols, tag="f"):
+    df = new_df(e, tag)
+    for i, c in enumerate(cols):
+        h5_field(e, df, "c%d" % i, c)
+    return df
+
+
+def as_form(e, a, form, dt=None):
+    """an ndarray argument in the form the case asks for: ndarray, memory Field, list"""
+    if form == "list":
+        return a.tolist() if hasattr(a, "tolist") else list(a)
+    if form == "field":
+        f = e["fields"].NumericMemField(e["s"], str(a.dtype))
+        f.data.write(a)
+        return f
+    if form == "h5field" and str(a.dtype) in FIELD_DTYPES:
+        f = new_df(e, "arg").create_numeric("a", str(a.dtype))
+        f.data.write(a)
+        return f
+    return a
+
+
+def cv(e, r, depth=0):
+    """canonical JSON-able rendering of any result: class, dtype, length, values"""
     np = e["np"]
-    r = np.asarray(r)
-    if r.dtype.kind == "f":
-        vals = [repr(float(x)) for x in r.tolist()]
-    elif r.dtype.kind == "S":
-        vals = [x.decode("latin-1") for x in r.tolist()]
-    elif r.dtype.kind in "OU":
-        vals = [str(x) for x in r.tolist()]
-    elif r.dtype.kind == "b":
-        vals = [bool(x) for x in r.tolist()]
-    else:
-        vals = [int(x) for x in r.tolist()]
-    return {"vals": vals, "dtype": str(r.dtype)}
+    if r is None or isinstance(r, (bool, str)):
+        return {"py": type(r).__name__, "v": r}
+    if isinstance(r, bytes):
+        return {"py": "bytes", "v": r.decode("latin-1")}
+    if isinstance(r, int):
+        return {"py": "int", "v": r}
+    if isinstance(r, float):
+        return {"py": "float", "v": repr(r)}
+    if isinstance(r, np.generic):
+        return {"np": str(r.dtype), "v": cv(e, np.asarray(r).reshape(1))["vals"][0]}
+    if isinstance(r, np.ndarray):
+        out = {"dtype": str(r.dtype), "n": int(r.shape[0]) if r.ndim else -1}
+        if r.ndim != 1:
+            out["shape"] = list(r.shape)
+        flat = r.reshape(-1)
+        kind = r.dtype.kind
+        if kind == "f":
+            out["vals"] = [repr(float(x)) for x in flat.tolist()]
+        elif kind == "S":
+            w = r.dtype.itemsize
+            b = flat.tobytes()
+            out["vals"] = [b[i * w:(i + 1) * w].decode("latin-1") for i in range(flat.shape[0])] if w else [""] * flat.shape[0]
+        elif kind in "OU":
+            out["vals"] = [x if isinstance(x, str) else cv(e, x, depth + 1) for x in flat.tolist()]
+        elif kind == "b":
+            out["vals"] = [bool(x) for x in flat.tolist()]
+        elif kind in "iu":
+            out["vals"] = [int(x) for x in flat.tolist()]
+        elif kind == "M" or kind == "m":
+            out["vals"] = [str(x) for x in flat.tolist()]
+        else:
+            out["vals"] = [str(x) for x in flat.tolist()]
+        return out
+    if hasattr(r, "data") and hasattr(r, "valid") and hasattr(r, "indexed"):
+        out = {"cls": type(r).__name__}
+        if r.indexed:
+            out["indices"] = cv(e, r.indices[:])
+            out["values"] = cv(e, r.values[:])
+            out["data"] = [str(x) for x in r.data[:]]
+        else:
+            out["data"] = cv(e, r.data[:])
+        if hasattr(r, "keys") and type(r).__name__.startswith("Categorical"):
+            out["keys"] = sorted((int(k), v.decode("latin-1") if isinstance(v, bytes) else str(v)) for k, v in r.keys.items())
+        return out
+    if isinstance(r, (list, tuple)):
+        return {"seq": type(r).__name__, "items": [cv(e, x, depth + 1) for x in r]}
+    if isinstance(r, dict):
+        return {"dict": sorted((str(k), cv(e, v, depth + 1)) for k, v in r.items())}
+    if type(r).__name__ == "DataFrame" and hasattr(r, "dtypes"):      # pandas
+        return {"pandas": [(str(c), cv(e, r[c].to_numpy())) for c in r.columns], "rows": int(len(r))}
+    if hasattr(r, "keys") and hasattr(r, "create_numeric"):           # exetera dataframe
+        return frame_out(e, r)
+    if hasattr(r, "__len__") and type(r).__module__.startswith("numba"):
+        return {"seq": "list", "items": [cv(e, x, depth + 1) for x in list(r)]}
+    return {"repr": type(r).__name__}
 
 
-def any_out(e, r):
-    if isinstance(r, tuple):
-        return {"parts": [any_out(e, x) for x in r]}
-    if hasattr(r, "data") and hasattr(r, "valid"):
-        return read(e, r)
-    if isinstance(r, list):
-        return {"vals": [str(x) for x in r], "dtype": "list"}
-    return out_vals(e, r)
+def frame_out(e, df):
+    return {"frame": [(str(k), cv(e, df[k])) for k in df.keys()]}
 
 
-def column(e, kind, n):
-    np, fields, s = e["np"], e["fields"], e["s"]
+def std_field(e, kind, n):
+    """the standard column of a kind: distinct values per row"""
     if kind == "indexed":
-        f = fields.IndexedStringMemField(s)
-        data = [STRS[i % len(STRS)] + str(i) for i in range(n)]
-        f.data.write(data)
-    elif kind == "fixed":
-        f = fields.FixedStringMemField(s, 4)
-        data = [("%04d" % i).encode() for i in range(n)]
-        f.data.write(np.array(data, dtype="S4"))
-        data = [x.decode() for x in data]
+        return {"k": "indexed", "dt": "indexed", "v": [STRS[i % len(STRS)] + str(i) for i in range(n)]}
+    if kind == "fixed":
+        return {"k": "fixed", "dt": "S4", "v": ["%04d" % (i % 10000) for i in range(n)]}
+    return {"k": "num", "dt": "int32", "v": list(range(1000, 1000 + n))}
+
+
+def do_spans(e, case):
+    np, ops, s = e["np"], e["ops"], e["s"]
+    a, b, c = case["a"], case["b"], case["c"]
+    ent = case["entry"]
+    if ent == "field":
+        f = mem_field(e, a)
+        return {"field": cv(e, f.get_spans()), "session": cv(e, s.get_spans(f)), "kw": cv(e, s.get_spans(field=f))}
+    if ent == "h5field":
+        df = frame_of(e, [a])
+        return {"field": cv(e, df["c0"].get_spans()), "session": cv(e, s.get_spans(df["c0"]))}
+    if ent == "array":
+        return cv(e, s.get_spans(arr(e, a)))
+    if ent == "two":
+        return cv(e, s.get_spans(fields=(arr(e, a), arr(e, b))))
+    if ent == "three":
+        return cv(e, s.get_spans(fields=(arr(e, a), arr(e, b), arr(e, c))))
+    if ent == "two_fields":
+        return cv(e, s.get_spans(fields=(mem_field(e, a), mem_field(e, b))))
+    if ent == "dest":
+        d = e["fields"].NumericMemField(s, "int32")
+        r = s.get_spans(mem_field(e, a), dest=d)
+        return {"same": r is d, "dest": cv(e, d)}
+    # the form group-by uses: a 2-d array of the key columns (numpy promotes them to a common dtype)
+    return cv(e, ops._get_spans_for_multi_fields(np.asarray([arr(e, a), arr(e, b)])))
+
+
+def do_apply(e, case):
+    np, ops, fields, s = e["np"], e["ops"], e["fields"], e["s"]
+    col, fn, level = case["col"], case["fn"], case["level"]
+    data = arr(e, col)
+    sp = np.array(case["spans"], dtype=case.get("sdtype", "int32"))
+    nsp = len(sp) - 1
+    name = "apply_spans_" + fn
+    if level == "filter_form":
+        dest = np.zeros(nsp, dtype="int64")
+        flt = np.zeros(nsp, dtype=bool)
+        if fn in ("index_of_first", "index_of_last"):
+            r = getattr(ops, name + "_filter")(sp, dest, flt)
+        else:
+            r = getattr(ops, name + "_filter")(sp, data, dest, flt)
+        # rows of an empty span are not written: only the rows the filter keeps are part of the result
+        return {"ret": [cv(e, x[flt]) for x in r], "filter": cv(e, flt), "dest": cv(e, dest[flt])}
+    if level in ("ops", "ops_dest"):
+        if fn in NOSRC_FNS:
+            if level == "ops_dest":
+                dest = np.zeros(nsp, dtype="int64" if fn == "count" else sp.dtype)
+                r = getattr(ops, name)(sp, dest)
+                return {"ret": cv(e, r), "dest": cv(e, dest)}
+            return cv(e, getattr(ops, name)(sp))
+        if level == "ops_dest":
+            dest = np.zeros(nsp, dtype=sp.dtype if fn in IDX_FNS else data.dtype)   # another dtype does not unify under numba
+            r = getattr(ops, name)(sp, data, dest)
+            return {"ret": cv(e, r), "dest": cv(e, dest)}
+        return cv(e, getattr(ops, name)(sp, data))
+    if level in ("session", "session_dest"):
+        dest = None
+        if level == "session_dest":
+            if fn in SRC_FNS and col["k"] == "fixed":
+                dest = fields.FixedStringMemField(s, int(col["dt"][1:]))
+            else:
+                dest = fields.NumericMemField(s, ("int64" if fn == "count" else str(sp.dtype)) if fn in IDX_FNS + NOSRC_FNS else col["dt"])
+        if fn in NOSRC_FNS:
+            r = getattr(s, name)(sp, dest)
+        else:
+            tgt = data
+            if case.get("tform") == "h5field":
+                tgt = frame_of(e, [col])["c0"]
+            elif case.get("tform") == "field":
+                tgt = mem_field(e, col)
+            elif case.get("tform") == "list":
+                tgt = data.tolist()
+            r = getattr(s, name)(sp, tgt, dest)
+        return {"ret": cv(e, r), "dest": cv(e, dest) if dest is not None else None}
+    # field level
+    sparg = as_form(e, sp, case.get("sform", "ndarray"))
+    if level == "h5field":
+        df = frame_of(e, [col])
+        return cv(e, getattr(df["c0"], name)(sparg))
+    f = mem_field(e, col)
+    if level == "field_target":
+        t = f.create_like()
+        r = getattr(f, name)(sparg, target=t)
+        return {"same": r is t, "target": cv(e, t), "src": cv(e, f)}
+    if level == "field_inplace":
+        r = getattr(f, name)(sparg, in_place=True)
+        return {"same": r is f, "src": cv(e, f)}
+    return cv(e, getattr(f, name)(sparg))
+
+
+def do_concat(e, case):
+    np, s, fields = e["np"], e["s"], e["fields"]
+    sp = np.array(case["spans"], dtype=case["sdtype"])
+    if case["backing"] == "h5":
+        df = frame_of(e, [case["col"]])
+        src = df["c0"]
+        dest = df.create_indexed_string("out")
     else:
-        f = fields.NumericMemField(s, "int32")
-        data = list(range(1000, 1000 + n))
-        f.data.write(np.array(data, dtype="int32"))
-    return f, data
+        src = mem_field(e, case["col"])
+        dest = fields.IndexedStringMemField(s)
+    s.apply_spans_concat(sp, src, dest, case["src_cs"], case["dest_cs"], case["mult"])
+    return cv(e, dest)
 
 
-def read(e, f):
-    d = f.data[:]
-    if isinstance(d, list):
-        return {"vals": [str(x) for x in d], "dtype": "list"}
-    return out_vals(e, d)
+def fi_source(e, case):
+    col = case.get("col") or std_field(e, case["kind"], case["n"])
+    return col
 
 
-def frame_with(e, fs):
-    """a dataframe (in-memory HDF5) holding copies of the given memory fields under the names c0, c1, …"""
-    s = e["Session"]()
-    ds = s.open_dataset(e["io"].BytesIO(), "w", "ds")
-    df = ds.create_dataframe("df")
-    for k, f in enumerate(fs):
-        df["c%d" % k] = f
-    return s, ds, df
+def do_filter_index(e, case):
+    np, s = e["np"], e["s"]
+    col = fi_source(e, case)
+    what = "apply_index" if case["op"] == "x_index" else "apply_filter"
+    if case["op"] == "x_index":
+        a = np.array(case["index"], dtype=case["idtype"])
+        form = case.get("iform", "ndarray")
+    else:
+        a = arr(e, {"k": "num", "dt": case["fdtype"], "v": case["filter"]})
+        form = case.get("fform", "ndarray")
+    ent = case["entry"]
+    arg = as_form(e, a, form)
+    if ent == "field":
+        return cv(e, getattr(mem_field(e, col), what)(arg))
+    if ent == "field_target":
+        f = mem_field(e, col)
+        t = f.create_like()
+        r = getattr(f, what)(arg, target=t)
+        return {"same": r is t, "target": cv(e, t), "src": cv(e, f)}
+    if ent == "field_inplace":
+        f = mem_field(e, col)
+        r = getattr(f, what)(arg, in_place=True)
+        return {"same": r is f, "src": cv(e, f)}
+    if ent == "h5field":
+        df = frame_of(e, [col])
+        return {"ret": cv(e, getattr(df["c0"], what)(arg)), "src": cv(e, df["c0"])}
+    if ent == "session":
+        return cv(e, getattr(s, what)(arg, mem_field(e, col)))
+    if ent == "session_arr":
+        src = arr(e, col)
+        if isinstance(src, list):
+            src = np.array(src, dtype=object)
+        return cv(e, getattr(s, what)(arg, src))
+    if ent == "session_dest":
+        f = mem_field(e, col)
+        d = f.create_like()
+        r = getattr(s, what)(arg, f, d)
+        return {"ret": cv(e, r), "dest": cv(e, d)}
+    df = frame_of(e, [col, std_field(e, "num", col_len(col))])
+    if ent == "frame":
+        ddf = new_df(e, "o")
+        r = getattr(df, what)(arg, ddf)
+        return {"same": r is ddf, "out": frame_out(e, ddf), "src": frame_out(e, df)}
+    r = getattr(df, what)(arg)
+    return {"same": r is df, "src": frame_out(e, df)}
+
+
+def do_sort(e, case):
+    np, s = e["np"], e["s"]
+    keys, payload = case["keys"], case["payload"]
+    ent = case["entry"]
+    names = ["c%d" % i for i in range(len(keys))]
+    if ent in ("sort_index", "sort_index_arr"):
+        if ent == "sort_index":
+            rd = tuple(mem_field(e, k) for k in keys)
+        else:
+            rd = tuple(np.asarray(arr(e, k)) for k in keys)
+        idx = None if case["index"] is None else np.arange(col_len(keys[0]), dtype=case["index"])
+        return cv(e, s.dataset_sort_index(rd, idx))
+    df = frame_of(e, keys + payload)
+    if ent == "sort_values":
+        r = df.sort_values(by=names if len(names) > 1 else names[0])
+        return {"same": r is df, "src": frame_out(e, df)}
+    if ent == "sort_values_ddf":
+        ddf = new_df(e, "o")
+        r = df.sort_values(by=names, ddf=ddf)
+        return {"same": r is ddf, "out": frame_out(e, ddf), "src": frame_out(e, df)}
+    if ent == "sort_on":
+        ddf = new_df(e, "o")
+        s.sort_on(df, ddf, names, verbose=False)
+        return {"out": frame_out(e, ddf), "src": frame_out(e, df)}
+    s.sort_on(df, df, names, verbose=False)
+    return {"src": frame_out(e, df)}
+
+
+def set_chunks(e, cs):
+    """inject a small chunk size into the streamed drivers DataFrame.merge pins to 1 << 20 (as checks/harness/c02.py does)"""
+    import functools
+    ops = e["ops"]
+    if "orig" not in e:
+        e["orig"] = {name: getattr(ops, name) for name in dir(ops)
+                     if (name.startswith("generate_ordered_map_to_") and name.endswith("_streamed")) or
+                     name in ("ordered_map_valid_stream", "ordered_map_valid_indexed_stream")}
+    for name, fn in e["orig"].items():
+        setattr(ops, name, fn if cs >= (1 << 20) else functools.partial(fn, chunksize=cs))
+
+
+def do_map(e, case):
+    np, ops, fields, s = e["np"], e["ops"], e["fields"], e["s"]
+    src = case["src"]
+    m = np.array(case["map"], dtype=case["mdtype"])
+    inv, ent = case["inv"], case["entry"]
+    flt = m != inv
+    if case.get("invform") == "np":         # the marker as a numpy scalar of the map's dtype / as a 0-d array
+        inv = m.dtype.type(inv)
+    elif case.get("invform") == "0d":
+        inv = np.array(inv, dtype=m.dtype)
+    if ent == "safe":
+        a = arr(e, src)
+        ev = None
+        if case.get("empty") and src["k"] == "num":
+            ev = a.dtype.type(1) if case["empty"] == "np" else np.array(1, dtype=a.dtype) if case["empty"] == "0d" else \
+                (1.0 if src["dt"] in FLOAT_DTYPES else True if src["dt"] == "bool" else 1)
+        elif case.get("empty") and src["k"] == "fixed":
+            ev = b"z"       # (a numpy.bytes_ scalar is not generated: numba cannot unbox it - TypeError at the call, whatever the kernel)
+        return cv(e, ops.safe_map_values(a, m, flt, ev) if ev is not None else ops.safe_map_values(a, m, flt))
+    if ent == "map_valid":
+        return cv(e, ops.map_valid(arr(e, src), m, invalid=inv))
+    if ent == "safe_indexed":
+        f = mem_field(e, src)
+        r = ops.safe_map_indexed_values(f.indices[:], f.values[:], m, flt)
+        return [cv(e, x) for x in r]
+    sf = mem_field(e, src)
+    mf = fields.NumericMemField(s, case["mdtype"])
+    mf.data.write(m)
+    df_ = sf.create_like()
+    cs = case["cs"]
+    cs = np.int64(cs) if case.get("csform") == "np" else np.array(cs, dtype="int64") if case.get("csform") == "0d" else cs
+    if ent == "stream_indexed":
+        ops.ordered_map_valid_indexed_stream(sf, mf, df_, invalid=inv, chunksize=cs)
+    else:
+        ops.ordered_map_valid_stream(sf, mf, df_, invalid=inv, chunksize=cs)
+    return cv(e, df_)
+
+
+def do_merge(e, case):
+    ldf, rdf, ddf = new_df(e, "l"), new_df(e, "r"), new_df(e, "d")
+    h5_field(e, ldf, "k", case["lk"])
+    h5_field(e, rdf, "k", case["rk"])
+    for i, c in enumerate(case["left"]):
+        h5_field(e, ldf, "l%d" % i, c)
+    for i, c in enumerate(case["right"]):
+        h5_field(e, rdf, "r%d" % i, c)
+    h = case["hints"]
+    set_chunks(e, case["cs"])
+    try:
+        lon, ron = ("k", "k") if case.get("keyform", "name") == "name" else (ldf["k"], rdf["k"])
+        lf, rf = (["l0"], ["r0"]) if case.get("subset") else (None, None)
+        e["dataframe"].merge(ldf, rdf, ddf, lon, ron, left_fields=lf, right_fields=rf, how=case["how"], hint_left_keys_ordered=h[0],
+                             hint_left_keys_unique=h[1], hint_right_keys_ordered=h[2], hint_right_keys_unique=h[3], chunk_size=case["cs"])
+    finally:
+        set_chunks(e, 1 << 20)
+    out = frame_out(e, ddf)
+    if not (h[0] and h[2]) or case["how"] == "outer":
+        # the unordered path hands the row order to pandas.merge, which the property does not fix: compare the multiset of rows
+        cols = out["frame"]
+        n = max([len(c[1].get("data", {}).get("vals", c[1].get("data", []))) if isinstance(c[1].get("data"), dict) else len(c[1].get("data", []))
+                 for c in cols] or [0])
+        rows = []
+        for i in range(n):
+            rows.append([(c[1]["data"]["vals"][i] if isinstance(c[1]["data"], dict) else c[1]["data"][i]) if not c[0].startswith("_") else None
+                         for c in cols])
+        rows.sort(key=lambda r: json_key(r))
+        return {"cols": [(c[0], c[1]["cls"], c[1]["data"]["dtype"] if isinstance(c[1]["data"], dict) else "indexed") for c in cols], "rows": rows}
+    return out
+
+
+def json_key(x):
+    import json
+    return json.dumps(x, sort_keys=True, default=str)
+
+
+def do_smerge(e, case):
+    np, ops, fields, s = e["np"], e["ops"], e["fields"], e["s"]
+    ent, form = case["entry"], case["form"]
+    lk, rk = case["lk"], case["rk"]
+    lcols, rcols = case["left"], case["right"]
+
+    def src(c, as_field):
+        if as_field or c["k"] == "indexed":
+            return mem_field(e, c)
+        return arr(e, c)
+    fld = form in ("field", "field_sinks", "streamed")
+    lka, rka = src(lk, fld), src(rk, fld)
+    if ent in ("ordered_left", "ordered_right"):
+        # ordered_merge_left maps RIGHT payloads into the left row space (one row per left row when right is unique)
+        sources = [c for c in (rcols if ent == "ordered_left" else lcols) if c["k"] != "indexed"] or [std_field(e, "num", col_len(rk if ent == "ordered_left" else lk))]
+        srcs = tuple(src(c, fld) for c in sources)
+        nrows = col_len(lk if ent == "ordered_left" else rk)
+        kw = dict(left_unique=case["lu"], right_unique=case["ru"])
+        fn = s.ordered_merge_left if ent == "ordered_left" else s.ordered_merge_right
+        names = ("right_field_sources", "left_field_sinks", "left_to_right_map") if ent == "ordered_left" else \
+                ("left_field_sources", "right_field_sinks", "right_to_left_map")
+        if form in ("ndarray", "field"):
+            r = fn(lka, rka, **{names[0]: srcs}, **kw)
+            return cv(e, r)
+        if form == "array_sinks":
+            sinks = tuple(np.zeros(nrows, dtype=np.asarray(arr(e, c)).dtype) for c in sources)
+            r = fn(lka, rka, **{names[0]: srcs, names[1]: sinks}, **kw)
+            return {"ret": cv(e, r), "sinks": [cv(e, x) for x in sinks]}
+        sinks = tuple(mem_field(e, {**c, "v": []}) for c in sources)
+        args = {names[0]: srcs, names[1]: sinks}
+        mp = None
+        if form == "streamed":
+            mp = fields.NumericMemField(s, "int64")
+            args[names[2]] = mp
+        r = fn(lka, rka, **args, **kw)
+        return {"ret": cv(e, r), "sinks": [cv(e, x) for x in sinks], "map": cv(e, mp) if mp is not None else None}
+    if ent == "ordered_inner":
+        ls = tuple(src(c, fld) for c in lcols if c["k"] != "indexed") or (src(std_field(e, "num", col_len(lk)), fld),)
+        rs = tuple(src(c, fld) for c in rcols if c["k"] != "indexed") or (src(std_field(e, "num", col_len(rk)), fld),)
+        if form in ("field_sinks", "streamed"):
+            lsn = tuple(x.create_like() for x in ls)
+            rsn = tuple(x.create_like() for x in rs)
+            r = s.ordered_merge_inner(lka, rka, left_field_sources=ls, left_field_sinks=lsn, right_field_sources=rs, right_field_sinks=rsn,
+                                      left_unique=case["lu"], right_unique=case["ru"])
+            return {"ret": cv(e, r), "l": [cv(e, x) for x in lsn], "r": [cv(e, x) for x in rsn]}
+        r = s.ordered_merge_inner(lka, rka, left_field_sources=ls, right_field_sources=rs, left_unique=case["lu"], right_unique=case["ru"])
+        return cv(e, r)
+    if ent in ("merge_left", "merge_right", "merge_inner"):
+        ls = tuple(src(c, fld) for c in lcols)
+        rs = tuple(src(c, fld) for c in rcols)
+        if ent == "merge_left":
+            r = s.merge_left(lka, rka, right_fields=rs)
+        elif ent == "merge_right":
+            r = s.merge_right(lka, rka, left_fields=ls)
+        else:
+            r = s.merge_inner(lka, rka, left_fields=ls, right_fields=rs)
+        return cv(e, r)
+    if ent == "get_index":
+        dest = None
+        if form == "field_sinks":
+            dest = fields.NumericMemField(s, "int64")
+        elif form == "array_sinks":
+            dest = np.zeros(col_len(lk), dtype="int64")
+        r = s.get_index(rka, lka, dest)
+        return {"ret": cv(e, r), "dest": cv(e, dest)}
+    # Session.join: foreign-key row numbers (sorted), one value per distinct foreign key, mapped into the primary key's rows
+    npk = col_len(rk) + 1
+    fk = np.sort(np.array([i % npk for i in range(col_len(lk))], dtype=rng_dtype(case)))
+    sp = s.get_spans(fk)
+    vals = arr(e, {**lcols[0], "v": (lcols[0]["v"] * 3)[:len(sp) - 1]}) if lcols[0]["k"] != "indexed" else np.arange(len(sp) - 1, dtype="int8")
+    if len(vals) != len(sp) - 1:
+        vals = np.arange(len(sp) - 1, dtype="int8")
+    pk = np.arange(npk, dtype="int64")
+    if fld:
+        pkf = fields.NumericMemField(s, "int64")
+        pkf.data.write(pk)
+        fkf = fields.NumericMemField(s, str(fk.dtype))
+        fkf.data.write(fk)
+        w = None
+        if form == "field_sinks":
+            w = fields.NumericMemField(s, str(vals.dtype)) if vals.dtype.kind != "S" else fields.FixedStringMemField(s, vals.dtype.itemsize)
+        r = s.join(pkf, fkf, vals, w)
+        return {"ret": cv(e, r), "w": cv(e, w)}
+    return cv(e, s.join(pk, fk, vals))
+
+
+def rng_dtype(case):
+    return {"ndarray": "int64", "field": "int32", "field_sinks": "uint8", "streamed": "int16", "array_sinks": "uint32"}[case["form"]]
+
+
+def do_groupby(e, case):
+    keys, targets = case["keys"], case["targets"]
+    df = frame_of(e, keys + targets)
+    names = ["c%d" % i for i in range(len(keys))]
+    tnames = ["c%d" % (len(keys) + i) for i in range(len(targets))]
+    ddf = new_df(e, "o")
+    by = names if len(names) > 1 else names[0]
+    agg = case["agg"]
+    if agg == "drop_duplicates":
+        r = df.drop_duplicates(by=by, ddf=ddf, hint_keys_is_sorted=case["hint"])
+        return {"same": r is ddf, "out": frame_out(e, ddf)}
+    g = df.groupby(by=by, hint_keys_is_sorted=case["hint"])
+    wk = case.get("write_keys", True)
+    if agg in ("count", "distinct"):
+        r = getattr(g, agg)(ddf=ddf, write_keys=wk)
+    else:
+        r = getattr(g, agg)(target=tnames if len(tnames) > 1 else tnames[0], ddf=ddf, write_keys=wk)
+    return {"same": r is ddf, "out": frame_out(e, ddf), "src": frame_out(e, df)}
+
+
+def do_aggregate(e, case):
+    np, s, fields = e["np"], e["s"], e["fields"]
+    idx, tgt = case["index"], case["target"]
+    ia = mem_field(e, idx) if case["iform"] == "field" or idx["k"] == "indexed" else arr(e, idx)
+    ta = mem_field(e, tgt) if case["tform"] == "field" else arr(e, tgt)
+    fn = case["fn"]
+    dest = None
+    if case["dest"]:
+        dest = fields.NumericMemField(s, "int64") if fn == "count" else mem_field(e, {**tgt, "v": []})
+    if fn == "count":
+        r = s.aggregate_count(ia, dest)
+    else:
+        r = getattr(s, "aggregate_" + fn)(ia, ta, dest)
+    return {"ret": cv(e, r), "same": (r is dest) if dest is not None else None}
+
+
+def test_values(e, col, test, form):
+    np = e["np"]
+    if col["k"] == "indexed":
+        vals = list(test)
+    elif col["k"] == "fixed":
+        vals = [x.encode("latin-1") for x in test]
+    elif col["dt"] in FLOAT_DTYPES:
+        vals = [float(x) if isinstance(x, str) else x for x in test]
+    else:
+        vals = list(test)
+    if form == "ndarray":
+        if col["k"] == "fixed":
+            return np.array(vals, dtype=col["dt"]) if vals else np.zeros(0, dtype=col["dt"])
+        if col["k"] == "indexed":
+            return np.array(vals, dtype=object)
+        return np.array(vals, dtype=col["dt"]) if all(bounds_ok(col["dt"], v) for v in vals) else np.array(vals)
+    if form == "set":
+        return set(vals)
+    if form == "tuple":
+        return tuple(vals)
+    if form in ("scalar", "npscalar", "0d"):
+        if not vals:
+            return vals
+        v = vals[0]
+        if form == "scalar" or col["k"] in ("indexed", "fixed"):
+            return v
+        a = np.array(v, dtype=col["dt"]) if bounds_ok(col["dt"], v) else np.array(v)
+        return a if form == "0d" else a[()]
+    return vals
+
+
+def bounds_ok(dt, v):
+    if dt in FLOAT_DTYPES or isinstance(v, float):
+        return True
+    lo, hi = bounds(dt)
+    return lo <= v <= hi
+
+
+def do_isin(e, case):
+    col = case["col"]
+    t = test_values(e, col, case["test"], case["tform"])
+    if case["backing"] == "h5":
+        f = frame_of(e, [col])["c0"]
+    else:
+        f = mem_field(e, col)
+    if case["backing"] == "module":
+        return cv(e, e["fields"].isin(f, t))
+    return cv(e, f.isin(t))
+
+
+def do_unique(e, case):
+    col = case["col"]
+    f = frame_of(e, [col])["c0"] if case["backing"] == "h5" else mem_field(e, col)
+    a, b, c = case["flags"]
+    return cv(e, f.unique(return_index=a, return_inverse=b, return_counts=c))
+
+
+class _Schema:
+    def __init__(self, names):
+        self.fields = {n: None for n in names}
+
+
+def do_journal(e, case):
+    np = e["np"]
+    from exetera.core import journal
+    o, n, r = new_df(e, "jo"), new_df(e, "jn"), new_df(e, "jr")
+    s = e["hs"]
+    kd = case["kdtype"]
+
+    def table(df, ids, vf, side):
+        if kd == "S2":
+            df.create_fixed_string("id", 2).data.write(np.array([b"%02d" % x for x in ids], dtype="S2"))
+        else:
+            df.create_numeric("id", kd).data.write(np.array(ids, dtype=kd))
+        df.create_timestamp("j_valid_from").data.write(np.array(vf, dtype="float64"))
+        df.create_timestamp("j_valid_to").data.write(np.array([9e9] * len(ids), dtype="float64"))
+        for ci, c in enumerate(case["jcols"]):
+            h5_field(e, df, "c%d" % ci, {"k": c["k"], "dt": c["dt"], "v": c[side]})
+    table(o, case["old_ids"], case["old_vf"], "o")
+    table(n, case["new_ids"], [99.0] * len(case["new_ids"]), "n")
+    names = ["id"] + ["c%d" % ci for ci in range(len(case["jcols"]))]
+    journal.journal_table(s, _Schema(names), o, n, "id", r)
+    return frame_out(e, r)
+
+
+def do_import(e, case):
+    import tempfile
+    import warnings
+    warnings.simplefilter("ignore")
+    from exetera.io import field_importers as fi, parsers
+    cols = case["cols"]
+    rows = len(cols[0]["cells"])
+
+    def cell(x):
+        return '"' + x.replace('"', '""') + '"' if case.get("quote") or "," in x else x
+    text = ",".join(c["name"] for c in cols) + "\n"
+    for i in range(rows):
+        text += ",".join(cell(c["cells"][i]) for c in cols) + "\n"
+    schema = {}
+    for c in cols:
+        k = c["kind"]
+        if k in ("int", "float", "bool"):
+            inv = c["invalid"]
+            schema[c["name"]] = fi.Numeric("bool" if k == "bool" else c["dtype"], float(inv) if isinstance(inv, str) else inv, c["mode"])
+        elif k == "fixed":
+            schema[c["name"]] = fi.String(c["strlen"])
+        elif k == "indexed":
+            schema[c["name"]] = fi.String()
+        elif k in ("categorical", "leaky"):
+            schema[c["name"]] = fi.Categorical(c["cats"], c["vtype"], allow_freetext=(k == "leaky"))
+        elif k == "datetime":
+            schema[c["name"]] = fi.DateTime(c["day"], c["flag"])
+        else:
+            schema[c["name"]] = fi.Date(c["day"], c["flag"])
+    df = new_df(e, "imp")
+    fd, path = tempfile.mkstemp(suffix=".csv")
+    try:
+        with os.fdopen(fd, "wb") as f:
+            f.write(text.encode("utf-8"))
+        parsers.read_csv_with_schema_dict(path, df, schema, 1.5, chunk_row_size=case["crs"])
+    finally:
+        os.unlink(path)
+    return frame_out(e, df)
+
+
+def do_export(e, case):
+    import tempfile
+    np = e["np"]
+    df = frame_of(e, case["cols"])
+    flt = np.array(case["filter"], dtype=bool)
+    rf = case["rfilter"]
+    if rf == "own":
+        df.create_numeric("flt", "bool").data.write(flt)
+        rfa = df["flt"]
+    elif rf == "field":
+        rfa = e["fields"].NumericMemField(e["s"], "bool")
+        rfa.data.write(flt)
+    else:
+        rfa = flt if rf else None
+    if case["entry"] == "to_pandas":
+        return cv(e, df.to_pandas(row_filter=None if rfa is None else flt, col_filter=case["cfilter"]))
+    fd, path = tempfile.mkstemp(suffix=".csv")
+    os.close(fd)
+    try:
+        df.to_csv(path, row_filter=rfa, column_filter=case["cfilter"], chunk_row_size=case["crs"])
+        with open(path, "rb") as f:
+            return {"bytes": f.read().decode("latin-1")}
+    finally:
+        os.unlink(path)
+
+
+def do_arith(e, case):
+    import operator
+    np = e["np"]
+    a, b, fn = case["a"], case["b"], case["fn"]
+    fa = frame_of(e, [a])["c0"] if case["backing"] == "h5" else mem_field(e, a)
+    if fn == "invert":
+        return cv(e, ~fa)
+    if fn == "logical_not":
+        return cv(e, fa.logical_not())
+    of = case["oform"]
+    sc = case["scalar"]
+    if of == "field":
+        other = mem_field(e, b)
+    elif of == "ndarray":
+        other = arr(e, b)
+    elif of == "list":
+        other = arr(e, b).tolist()
+    elif of == "pyint":
+        other = int(sc)
+    elif of == "pyfloat":
+        other = float(sc)
+    elif of == "pybool":
+        other = bool(sc)
+    else:
+        lo, hi = bounds(case["sdt"]) if case["sdt"] not in FLOAT_DTYPES else (None, None)
+        v = sc if lo is None or lo <= sc <= hi else (hi if sc > hi else lo)
+        other = np.array(v, dtype=case["sdt"])
+        if of == "npscalar":
+            other = other[()]
+    rev = fn.startswith("r") and fn not in ("rshift",)
+    name = fn[1:] if rev else fn
+    if name == "divmod":
+        r = divmod(other, fa) if rev else divmod(fa, other)
+    else:
+        f = {"and": operator.and_, "or": operator.or_}.get(name) or getattr(operator, name)
+        r = f(other, fa) if rev else f(fa, other)
+    return cv(e, r)
+
+
+def do_date(e, case):
+    np = e["np"]
+    from datetime import datetime, timedelta
+    from exetera.processing import date_time_helpers as dth
+    fn = case["fn"]
+
+    def scal(x):
+        if x is None:
+            return None
+        v = float(x)
+        return v if case["sform"] == "py" else np.float64(v) if case["sform"] == "np" else np.array(v, dtype="float64")
+    if fn == "get_days":
+        ts = arr(e, case["ts"])
+        flt = None if case["filter"] is None else np.array(case["fv"], dtype=case["filter"])
+        r1 = dth.get_days(ts, flt, scal(case["start"]), scal(case["end"]))
+        ts[:] = 0
+        r2 = dth.get_days(arr(e, case["ts"]), flt, scal(case["start"]), scal(case["end"]))
+        return [cv(e, r1), cv(e, r2)]
+    d0 = datetime(1970, 1, 1) + timedelta(days=case["d0"])
+    delta = case["delta"]
+    try:
+        d1 = d0 + timedelta(days=case["span"] if delta > 0 else -case["span"])
+    except OverflowError:
+        d1 = d0
+    periods = dth.get_periods(d0, d1, case["period"], delta)
+    if fn == "periods":
+        return [str(p) for p in periods]
+    if delta < 0:
+        periods = list(reversed(periods))        # generate_period_offset_map takes the boundaries in ascending order
+    pm = dth.generate_period_offset_map(periods)
+    days = np.array([d % max(len(pm), 1) for d in case["days"]], dtype=case["ddt"])
+    inr = None if case["filter"] is None else np.array(case["fv"], dtype=bool)
+    if len(pm) == 0 and inr is None:
+        inr = np.zeros(len(days), dtype=bool)
+    return {"map": cv(e, pm), "off": cv(e, dth.get_period_offsets(pm.astype(case["pdt"]), days, inr))}
+
+
+def do_ops(e, case):
+    np, ops = e["np"], e["ops"]
+    fn = case["fn"]
+    l, r = arr(e, case["lk"]), arr(e, case["rk"])
+    if fn == "check_sorted":
+        return {"r": cv(e, ops.check_if_sorted_for_multi_fields(np.asarray([l, r])))}
+    if fn == "left_size":
+        return {"r": cv(e, ops.ordered_left_map_result_size(l, r))}
+    if fn == "inner_size":
+        return {"r": cv(e, ops.ordered_inner_map_result_size(l, r))}
+    if fn == "outer_size_bu":
+        return {"r": cv(e, ops.ordered_outer_map_result_size_both_unique(l, r))}
+    if fn == "last_as_filter":
+        return {"r": cv(e, ops.ordered_get_last_as_filter(l))}
+    if fn == "journal_idx":
+        return {"r": cv(e, ops.ordered_generate_journalling_indices(l, r))}
+    if fn == "inner_map":
+        n = int(ops.ordered_inner_map_result_size(l, r))
+        a, b = np.zeros(n, dtype=case["mdtype"]), np.zeros(n, dtype=case["mdtype"])
+        if case["lu"] and case["ru"]:
+            ret = ops.ordered_inner_map_both_unique(l, r, a, b)
+        elif case["lu"]:
+            ret = ops.ordered_inner_map_left_unique(l, r, a, b)
+        else:
+            ret = ops.ordered_inner_map(l, r, a, b)
+        return {"ret": cv(e, ret), "l": cv(e, a), "r": cv(e, b)}
+    if fn == "inner_lu_partial":                  # one call of the streamed left-unique inner map's kernel, 4-row result buffers
+        a, b = np.zeros(4, dtype=case["mdtype"]), np.zeros(4, dtype=case["mdtype"])
+        ret = ops.ordered_inner_map_left_unique_partial(3, 5, l, r, a, b)
+        m = int(ret[2])
+        return {"ret": cv(e, tuple(ret)), "l": cv(e, a[:m]), "r": cv(e, b[:m])}
+    if fn == "stream_sort":                       # two sorted chunks of equal length (a 2-d array), merged until one is used up
+        n = min(len(l), len(r))
+        if n == 0 or l.dtype != r.dtype:
+            return {"skip": True}
+        vals = np.stack([l[:n], r[:n]])
+        idx = np.stack([np.arange(n, dtype="int64"), np.arange(n, dtype="int64") + 100])
+        pos, lens = np.zeros(2, dtype="int64"), np.array([n, n], dtype="int64")
+        dv, di = np.zeros(2 * n, dtype=vals.dtype), np.zeros(2 * n, dtype="int64")
+        k = int(ops.streaming_sort_partial(pos, lens, vals, idx, dv, di))
+        return {"k": k, "vals": cv(e, dv[:k]), "idx": cv(e, di[:k]), "pos": cv(e, pos)}
+    res = np.zeros(len(l), dtype="int64")          # left_map: the right key is unique
+    if case["lu"]:
+        ret = ops.generate_ordered_map_to_left_both_unique(l, r, res, ops.INVALID_INDEX)
+    else:
+        ret = ops.generate_ordered_map_to_left_right_unique(l, r, res, ops.INVALID_INDEX)
+    return {"ret": cv(e, ret), "map": cv(e, res)}
+
+
+IMPL = {"x_spans": do_spans, "x_apply": do_apply, "x_concat": do_concat, "x_index": do_filter_index, "x_filter": do_filter_index,
+        "x_sort": do_sort, "x_map": do_map, "x_merge": do_merge, "x_smerge": do_smerge, "x_groupby": do_groupby,
+        "x_aggregate": do_aggregate, "x_isin": do_isin, "x_unique": do_unique, "x_journal": do_journal, "x_import": do_import,
+        "x_export": do_export, "x_arith": do_arith, "x_date": do_date, "x_ops": do_ops}
+
+
+ERRMAP = [(IndexError, "index_error"), (KeyError, "key_error"), (ValueError, "value_error"), (TypeError, "type_error"),
+          (AttributeError, "attribute_error"), (OverflowError, "overflow_error"), (NotImplementedError, "not_implemented")]   # checks/worker.py
+
+
+def err_class(ex):
+    for cls, tag in ERRMAP:
+        if isinstance(ex, cls):
+            return tag
+    return "other:" + type(ex).__name__
+
+
+def impl_one(e, case):
+    e["n_cases"] = e.get("n_cases", 0) + 1
+    if e["n_cases"] % RECYCLE_EVERY == 0:
+        e["recycle"] = True              # the next dataframe is created in a fresh in-memory dataset (bounded worker memory)
+    r = IMPL[case["op"]](e, case)
+    return r if isinstance(r, dict) else {"r": r}
 
 
 def impl(case):
     e = _env()
-    np, ops, fields, s = e["np"], e["ops"], e["fields"], e["s"]
-    op = case["op"]
-    if op == "x_apply":
-        data = arr(e, case["data"], case["dtype"])
-        sp = np.array(case["spans"], dtype=case.get("sdtype", "int32"))
-        fn, level = case["fn"], case["level"]
-        if fn in IDX_FNS:
-            if level == "ops":
-                dest = np.zeros(len(sp) - 1, dtype=sp.dtype)     # the kernel's own default; another dtype does not unify under numba
-                r = getattr(ops, "apply_spans_" + fn)(sp, data, dest)
-                return out_vals(e, dest if r is None else r)
-            return out_vals(e, getattr(s, "apply_spans_" + fn)(sp, data))
-        if level == "ops":
-            dest = np.zeros(len(sp) - 1, dtype=data.dtype)
-            getattr(ops, "apply_spans_" + fn)(sp, data, dest)
-            return out_vals(e, dest)
-        if level == "session":
-            return out_vals(e, getattr(s, "apply_spans_" + fn)(sp, data))
-        f = fields.NumericMemField(s, case["dtype"])
-        f.data.write(data)
-        return read(e, getattr(f, "apply_spans_" + fn)(sp))
-    if op == "x_groupby":
-        k = fields.NumericMemField(s, "int32")
-        k.data.write(np.array(case["keys"], dtype="int32"))
-        t = fields.NumericMemField(s, case["dtype"])
-        t.data.write(arr(e, case["data"], case["dtype"]))
-        s2, ds, df = frame_with(e, [k, t])
+    if case["op"] != "x_batch":
+        return impl_one(e, case)
+    outs = []
+    for c in case["cases"]:
         try:
-            ddf = ds.create_dataframe("out")
-            getattr(df.groupby(by="c0"), case["agg"])(target="c1", ddf=ddf)
-            return {"keys": read(e, ddf["c0"]), "agg": read(e, ddf["c1_" + case["agg"]])}
-        finally:
-            s2.close()
-    if op == "x_apply_index":
-        f, data = column(e, case["kind"], case["n"])
-        idx = np.array(case["index"], dtype=case["idtype"])
-        if case["entry"] == "field":
-            return read(e, f.apply_index(idx))
-        if case["entry"] == "session":
-            return any_out(e, s.apply_index(idx, f))
-        s2, ds, df = frame_with(e, [f])
-        try:
-            ddf = ds.create_dataframe("out")
-            df.apply_index(idx, ddf)
-            return read(e, ddf["c0"])
-        finally:
-            s2.close()
-    if op == "x_apply_filter":
-        f, data = column(e, case["kind"], case["n"])
-        flt = arr(e, case["filter"], case["fdtype"])
-        if case["entry"] == "field":
-            return read(e, f.apply_filter(flt))
-        if case["entry"] == "session":
-            return any_out(e, s.apply_filter(flt, f))
-        s2, ds, df = frame_with(e, [f])
-        try:
-            ddf = ds.create_dataframe("out")
-            df.apply_filter(flt, ddf)
-            return read(e, ddf["c0"])
-        finally:
-            s2.close()
-    if op == "x_spans":
-        a = arr(e, case["a"], case["dtype"])
-        b = np.array(case["b"], dtype="int64")
-        ent = case["entry"]
-        if ent == "field":
-            f = fields.NumericMemField(s, case["dtype"])
-            f.data.write(a)
-            return out_vals(e, f.get_spans())
-        if ent == "array":
-            return out_vals(e, s.get_spans(a))
-        if ent == "two":
-            return out_vals(e, s.get_spans(fields=(a, b)))
-        return out_vals(e, ops._get_spans_for_multi_fields(np.array([a.astype("float64"), b.astype("float64")])))
-    if op == "x_map":
-        src = arr(e, case["src"], case["dtype"])
-        m = np.array(case["map"], dtype=case["mdtype"])
-        inv = case["inv"]
-        ent = case["entry"]
-        if ent == "safe":
-            return out_vals(e, ops.safe_map_values(src, m, m != inv))
-        if ent == "map_valid":
-            return out_vals(e, ops.map_valid(src, m, invalid=inv))
-        sf = fields.NumericMemField(s, case["dtype"])
-        sf.data.write(src)
-        mf = fields.NumericMemField(s, case["mdtype"])
-        mf.data.write(m)
-        df_ = fields.NumericMemField(s, case["dtype"])
-        ops.ordered_map_valid_stream(sf, mf, df_, invalid=inv, chunksize=case["cs"])
-        return read(e, df_)
-    raise ValueError(op)
+            outs.append(impl_one(e, c))
+        except BaseException as ex:     # noqa
+            if isinstance(ex, (KeyboardInterrupt, SystemExit)) or type(ex).__name__ == "CaseTimeout":
+                raise
+            outs.append({"err": err_class(ex), "msg": (str(ex) or "")[:200]})
+    return {"outs": outs}
 
 
 def to_model(case):
@@ -314,14 +1676,147 @@ def check_spec(case, io, mode):
     return None
 
 
+def strip(o):
+    return {k: v for k, v in o.items() if k not in ("msg", "trace", "calls")} if isinstance(o, dict) else o
+
+
+def subcases(case):
+    return case["cases"] if case["op"] == "x_batch" else [case]
+
+
+def suboutputs(case, out):
+    if case["op"] != "x_batch":
+        return [out]
+    if isinstance(out, dict) and isinstance(out.get("outs"), list) and len(out["outs"]) == len(case["cases"]):
+        return out["outs"]
+    return [out] * len(case["cases"])            # the whole batch failed (hang, worker exit): every sub-case carries that result
+
+
+def differing(case, jit_out, other_out, mode):
+    """the sub-cases of a (batch) case whose outputs differ between the modes and are not declared legitimate"""
+    subs = subcases(case)
+    return [(c, a, b) for c, a, b in zip(subs, suboutputs(case, jit_out), suboutputs(case, other_out))
+            if strip(a) != strip(b) and not one_diff_ok(c, a, b, mode)]
+
+
+_LAST = {}
+
+
+def mode_diff_ok(case, jit_out, other_out, mode):
+    """called by checks/run.py when the two modes' outputs of a case differ: True iff every differing sub-case is a declared
+    legitimate difference. The differing sub-cases are remembered for `match_finding` (called right after, same process)."""
+    bad = differing(case, jit_out, other_out, mode)
+    _LAST[canon_key(case)] = bad
+    return not bad
+
+
+def one_diff_ok(case, a, b, mode):
+    """differences between the modes that are NOT violations of C11, each with its exact reason. (None is needed for the inputs
+    generated today: inputs whose compiled behaviour is undefined are not generated.)"""
+    return False
+
+
+def match_one(case, a, b, mode):
+    """open finding of known_findings.json that this single differing sub-case is an instance of (narrow: by input shape AND
+    by the shape of the two outputs), else None"""
+    op = case["op"]
+    if op == "x_spans" and case.get("entry") in ("two_fields", "three"):
+        # NC11a: Session.get_spans(fields=...) hands out the list built by _get_spans_for_2_fields_by_spans: Python ints when the
+        # kernel is compiled, numpy.int32 when it is interpreted. Same length, same values, only the element class differs.
+        ra, rb = (a or {}).get("r", a), (b or {}).get("r", b)
+        if isinstance(ra, dict) and isinstance(rb, dict) and ra.get("seq") == rb.get("seq") == "list" and \
+                len(ra["items"]) == len(rb["items"]) and all(set(x) == {"py", "v"} and x["py"] == "int" for x in ra["items"]) and \
+                all(y.get("np") == "int32" for y in rb["items"]) and [x["v"] for x in ra["items"]] == [y["v"] for y in rb["items"]]:
+            return "NC11a"
+    if op == "x_apply" and case.get("fn") == "last" and case.get("sdtype") == "uint64":
+        # NC11b: apply_spans_last subtracts 1 from the uint64 span array: float64 under numba, which cannot subscript
+        if isinstance(a, dict) and a.get("err") == "other:TypingError" and isinstance(b, dict) and "err" not in b:
+            return "NC11b"
+    if op == "x_map" and case.get("entry") in ("stream", "stream_indexed") and case.get("invform") == "0d":
+        # NC11c: the streamed mapping drivers pass the marker into compiled kernels that unify it with map elements
+        if isinstance(a, dict) and a.get("err") == "other:TypingError" and isinstance(b, dict) and "err" not in b:
+            return "NC11c"
+    return None
+
+
+def match_finding(case, io, mode):
+    bad = _LAST.get(canon_key(case))
+    if not bad:
+        return None
+    ids = {match_one(c, a, b, mode) for c, a, b in bad}
+    return ids.pop() if len(ids) == 1 else None       # a batch with an unmatched (or a second kind of) difference is reported
+
+
+def case_cols(case):
+    cols = []
+    for k in ("col", "a", "b", "src", "lk", "rk", "index", "target", "ts"):
+        if isinstance(case.get(k), dict) and "v" in case[k]:
+            cols.append(case[k])
+    for k in ("keys", "payload", "cols", "left", "right", "targets", "jcols"):
+        if isinstance(case.get(k), list):
+            cols += [c for c in case[k] if isinstance(c, dict) and ("v" in c or "o" in c or "cells" in c)]
+    return cols
+
+
+def col_tag(c):
+    if "kind" in c:                 # import columns
+        return {"int": c.get("dtype"), "float": c.get("dtype"), "bool": "bool", "leaky": "categorical", "datetime": "timestamp",
+                "date": "timestamp"}.get(c["kind"], c["kind"])
+    return c["dt"] if c["k"] in ("num", "fixed") else c["k"]
+
+
+def nontrivial_one(case):
+    return any(at_bounds(c) for c in case_cols(case) if "v" in c) or case["op"] in ("x_index", "x_filter", "x_import", "x_journal") or \
+        bool(case.get("_top") or case.get("_nan_at"))
+
+
 def nontrivial(case, mo):
-    return any(x in SPECIAL for x in case.get("data", []) + case.get("a", []) + case.get("src", [])) or \
-        case["op"] in ("x_apply_index", "x_apply_filter") or case.get("dtype") in INT_DTYPES
+    return any(nontrivial_one(c) for c in subcases(case))
+
+
+def classify_one(case):
+    op = case["op"]
+    tags = set()
+    for c in case_cols(case)[:4]:
+        tags.add(op + ":" + dclass(col_tag(c)))
+    for k in ("idtype", "fdtype", "sdtype"):
+        if case.get(k):
+            tags.add(op + ":" + k[0] + "=" + case[k])
+    tags.add(op)
+    if case.get("entry") or case.get("level"):
+        tags.add(op + "/" + str(case.get("entry") or case.get("level")))
+    return sorted(tags)
 
 
 def classify(case, mo):
-    return [case["op"] + ":" + str(case.get("dtype") or case.get("idtype") or case.get("fdtype"))]
+    """tags per family x dtype class x entry point; a batch contributes the tags of each of its sub-cases (with multiplicity)"""
+    out = []
+    for c in subcases(case):
+        out += classify_one(c)
+    return out
 
 
 def select_for_mode(case, mode, tier):
     return True
+
+
+if __name__ == "__main__":
+    # python -m checks.harness.c11x <replay.json>: run the case of a replay file in both modes, print the differing sub-cases
+    import json
+    import sys
+    sys.path.insert(0, os.path.dirname(os.path.dirname(os.path.dirname(os.path.abspath(__file__)))))
+    from checks import lib
+    rec = json.load(open(sys.argv[1]))
+    case = {k: v for k, v in rec["case"].items() if k != "_h"}
+    flat = subcases(case)
+    outs = {m: lib.run_impl("c11x", flat, mode=m) for m in ("jit", "nojit")}
+    n = 0
+    for c, a, b in zip(flat, outs["jit"], outs["nojit"]):
+        if strip(a) != strip(b) and not one_diff_ok(c, a, b, "nojit"):
+            n += 1
+            print("case :", json.dumps(c, ensure_ascii=True))
+            print("jit  :", json.dumps(a, ensure_ascii=True)[:1500])
+            print("nojit:", json.dumps(b, ensure_ascii=True)[:1500])
+            print("known:", match_one(c, a, b, "nojit"))
+    print(f"{n} of {len(flat)} sub-case(s) differ between the modes")
+    sys.exit(1 if n else 0)
